@@ -678,6 +678,149 @@ theorem Inv.of_bind {st : St} (h : Inv st) (ev : Int) (first : Bool) (flags : BF
     omega
 
 
+/-! ### destruction: the second loop of `unbind_and_destroy` -/
+
+section
+variable (own : Owner) (beh : Behaviour)
+
+/-- A handler called with `TICKIT_EV_DESTROY` does nothing: the call records entry and exit only. -/
+theorem exec_call_destroy {cfg : Cfg} {fuel : Nat} {key hh : Nat} {st st' : St} {r : Int}
+    (h : exec cfg own beh fuel (.call key (some hh) (EV_UNBIND + EV_DESTROY) 0) st = .ok (st', r)) :
+    st' = { st with inv := fun x => if x = hh then st.inv hh + 1 else st.inv x,
+                    log := Ev.leave key 0 (beh hh (st.inv hh)).ret :: Ev.enter key hh (st.inv hh) (EV_UNBIND + EV_DESTROY) 0 :: st.log } := by
+  cases fuel with
+  | zero => simp [exec] at h
+  | succ fuel =>
+    cases fuel with
+    | zero => simp [exec] at h
+    | succ fuel =>
+      simp only [exec, EV_UNBIND, EV_DESTROY] at h
+      simp only [Nat.reduceAdd, if_true] at h
+      injection h with h
+      injection h with h _
+      rw [← h]; rfl
+
+theorem exec_call_destroy_noub {cfg : Cfg} {fuel : Nat} {key hh : Nat} {st : St} {w : String} :
+    exec cfg own beh fuel (.call key (some hh) (EV_UNBIND + EV_DESTROY) 0) st ≠ .ub w := by
+  cases fuel with
+  | zero => simp [exec]
+  | succ fuel =>
+    cases fuel with
+    | zero => simp [exec]
+    | succ fuel =>
+      simp only [exec, EV_UNBIND, EV_DESTROY]
+      simp
+
+/-- does the destroy loop call this node? (`evindex == 0 || flags & (UNBIND|DESTROY)`) -/
+def asked (b : Node) : Bool := b.ev == 0 || b.flags.unbind || b.flags.destroy
+
+/-- the handler entries of a trace segment, oldest first, as (binding, event flags) -/
+def enters (seg : List Ev) : List (Nat × Nat) :=
+  seg.reverse.filterMap fun e => match e with
+    | .enter k _ _ fl _ => some (k, fl)
+    | _ => none
+
+theorem enters_cons_append (a b : List Ev) : enters (a ++ b) = enters b ++ enters a := by
+  simp [enters, List.filterMap_append]
+
+theorem destroyLoop_spec {cfg : Cfg} : ∀ (rev : List Node) (fuel : Nat) (st st' : St) (r : Int),
+    (∀ b ∈ rev, b.fn ≠ none) →
+    exec cfg own beh fuel (.destroyLoop rev) st = .ok (st', r) →
+    st'.list = [] ∧ ∃ seg, st'.log = seg ++ st.log ∧
+      enters seg = (rev.filter asked).map (fun b => (b.key, EV_UNBIND + EV_DESTROY)) ∧
+      (∀ e ∈ seg, (∃ k hh n, e = Ev.enter k hh n (EV_UNBIND + EV_DESTROY) 0) ∨ ∃ k x, e = Ev.leave k 0 x) := by
+  intro rev
+  induction rev with
+  | nil =>
+    intro fuel st st' r _ h
+    cases fuel with
+    | zero => simp [exec] at h
+    | succ fuel =>
+      simp only [exec] at h
+      injection h with h; injection h with h _
+      subst h
+      exact ⟨rfl, [], rfl, rfl, by simp⟩
+  | cons b rest ih =>
+    intro fuel st st' r hfn h
+    cases fuel with
+    | zero => simp [exec] at h
+    | succ fuel =>
+      simp only [exec] at h
+      have hrest : ∀ x ∈ rest, x.fn ≠ none := fun x hx => hfn x (List.mem_cons_of_mem _ hx)
+      by_cases hask : b.ev = 0 ∨ b.flags.unbind = true ∨ b.flags.destroy = true
+      · have haskb : asked b = true := by simp only [asked, Bool.or_eq_true, beq_iff_eq]; rcases hask with h | h | h <;> simp [h]
+        rw [if_pos hask] at h
+        cases hfb : b.fn with
+        | none => exact absurd hfb (hfn b (List.mem_cons_self ..))
+        | some hh =>
+          rw [hfb] at h
+          cases hc : exec cfg own beh fuel (.call b.key (some hh) (EV_UNBIND + EV_DESTROY) 0) st with
+          | outOfFuel => rw [hc] at h; simp at h
+          | ub w => rw [hc] at h; simp at h
+          | ok p =>
+            obtain ⟨st1, r1⟩ := p
+            rw [hc] at h
+            simp only at h
+            have hst1 := exec_call_destroy own beh hc
+            obtain ⟨hl, seg, hseg, hent, hshape⟩ := ih fuel st1 st' r hrest h
+            refine ⟨hl, seg ++ [Ev.leave b.key 0 (beh hh (st.inv hh)).ret, Ev.enter b.key hh (st.inv hh) (EV_UNBIND + EV_DESTROY) 0], ?_, ?_, ?_⟩
+            · rw [hseg, hst1]; simp
+            · rw [enters_cons_append, hent, List.filter_cons_of_pos haskb]
+              simp [enters]
+            · intro e he
+              rcases List.mem_append.1 he with he | he
+              · exact hshape e he
+              · simp only [List.mem_cons, List.not_mem_nil, or_false] at he
+                rcases he with rfl | rfl
+                · exact Or.inr ⟨_, _, rfl⟩
+                · exact Or.inl ⟨_, _, _, rfl⟩
+      · have haskb : asked b = false := by
+          simp only [not_or] at hask
+          simp only [asked, Bool.or_eq_false_iff, beq_eq_false_iff_ne, ne_eq]
+          exact ⟨⟨hask.1, by simpa using hask.2.1⟩, by simpa using hask.2.2⟩
+        rw [if_neg hask] at h
+        obtain ⟨hl, seg, hseg, hent, hshape⟩ := ih fuel st st' r hrest h
+        refine ⟨hl, seg, hseg, ?_, hshape⟩
+        rw [hent, List.filter_cons_of_neg (by simp [haskb])]
+
+theorem destroyLoop_noub {cfg : Cfg} : ∀ (rev : List Node) (fuel : Nat) (st : St) (w : String),
+    (∀ b ∈ rev, b.fn ≠ none) → exec cfg own beh fuel (.destroyLoop rev) st ≠ .ub w := by
+  intro rev
+  induction rev with
+  | nil =>
+    intro fuel st w _
+    cases fuel <;> simp [exec]
+  | cons b rest ih =>
+    intro fuel st w hfn
+    cases fuel with
+    | zero => simp [exec]
+    | succ fuel =>
+      simp only [exec]
+      have hrest : ∀ x ∈ rest, x.fn ≠ none := fun x hx => hfn x (List.mem_cons_of_mem _ hx)
+      split
+      · cases hfb : b.fn with
+        | none => exact absurd hfb (hfn b (List.mem_cons_self ..))
+        | some hh =>
+          cases hc : exec cfg own beh fuel (.call b.key (some hh) (EV_UNBIND + EV_DESTROY) 0) st with
+          | outOfFuel => simp
+          | ub w' => exact absurd hc (exec_call_destroy_noub own beh)
+          | ok p => obtain ⟨st1, r1⟩ := p; simp only; exact ih fuel st1 w hrest
+      · exact ih fuel st w hrest
+
+/-- Recording handler entries for destruction and exits keeps the trace well formed. -/
+theorem TraceOk.append_destroy {seg log : List Ev} (h : TraceOk log)
+    (hshape : ∀ e ∈ seg, (∃ k hh n, e = Ev.enter k hh n (EV_UNBIND + EV_DESTROY) 0) ∨ ∃ k x, e = Ev.leave k 0 x) :
+    TraceOk (seg ++ log) := by
+  induction seg with
+  | nil => exact h
+  | cons e seg ih =>
+    refine ⟨?_, ih (fun x hx => hshape x (List.mem_cons_of_mem _ hx))⟩
+    rcases hshape e (List.mem_cons_self ..) with ⟨k, hh, n, rfl⟩ | ⟨k, x, rfl⟩
+    · exact ⟨fun ho => by simp [EV_UNBIND, EV_DESTROY] at ho, fun ho => by simp [EV_UNBIND, EV_DESTROY] at ho⟩
+    · trivial
+
+end
+
 /-! ### what every completed task guarantees (repaired code) -/
 
 @[simp] theorem repaired_skipTomb : Cfg.repaired.skipTomb = true := rfl
@@ -725,8 +868,25 @@ theorem EvOcc.weaken {own own' : Option Nat × Option Nat} {n : Nat} {e : Ev} (h
       · exact Or.inr (Or.inr h)
   | _ => trivial
 
-/-- Two-state facts about a completed task.  `own` is the occurrence the task itself delivers for (a walker) and
-    the occurrence whose handler it runs (a call), if any. -/
+/-- Reference accounting across a completed task that left the owner alive: the count is back where it was, less
+    the handlers' own reference if that was dropped meanwhile (it is dropped at most once, never regained). -/
+def Life (st st' : St) : Prop :=
+  st'.dead = st.dead ∧ st'.refs + (if st.userRef && !st'.userRef then 1 else 0) = st.refs ∧ (st'.userRef = true → st.userRef = true)
+
+theorem Life.same {st st' : St} (hr : st'.refs = st.refs) (hd : st'.dead = st.dead) (hu : st'.userRef = st.userRef) : Life st st' := by
+  refine ⟨hd, ?_, fun h => by rw [← hu]; exact h⟩
+  rw [hr, hu]; cases st.userRef <;> simp
+
+theorem Life.refl (st : St) : Life st st := Life.same rfl rfl rfl
+
+theorem Life.trans {a b c : St} (h1 : Life a b) (h2 : Life b c) : Life a c := by
+  obtain ⟨d1, r1, u1⟩ := h1
+  obtain ⟨d2, r2, u2⟩ := h2
+  refine ⟨d2.trans d1, ?_, fun h => u1 (u2 h)⟩
+  cases ha : a.userRef <;> cases hb : b.userRef <;> cases hc : c.userRef <;> simp_all <;> omega
+
+/-- Two-state facts about a completed task that left the owner alive.  `own` is the occurrence the task itself
+    delivers for (a walker) and the occurrence whose handler it runs (a call), if any. -/
 structure Step (own : Option Nat × Option Nat) (st st' : St) : Prop where
   /-- the iteration guard is restored -/
   iter : st'.isIter = st.isIter
@@ -738,8 +898,8 @@ structure Step (own : Option Nat × Option Nat) (st st' : St) : Prop where
   logExt : ∃ seg, st'.log = seg ++ st.log ∧ ∀ e ∈ seg, EvOcc own st.nextOcc e
   /-- the harness's slot table only grows -/
   slotsExt : ∃ ext, st'.slotIds = st.slotIds ++ ext
-  /-- the owner's reference count is back where it was (no behaviour drops the user's reference) -/
-  life : st'.refs = st.refs ∧ st'.dead = st.dead
+  /-- reference accounting -/
+  life : Life st st'
 
 theorem Step.mem_keys {own : Option Nat × Option Nat} {st st' : St} (s : Step own st st') (hi : st.isIter = true) {k : Nat}
     (hk : k ∈ keys st.list) : k ∈ keys st'.list := by
@@ -747,7 +907,7 @@ theorem Step.mem_keys {own : Option Nat × Option Nat} {st st' : St} (s : Step o
   rw [h]; simp [hk]
 
 theorem Step.refl (own : Option Nat × Option Nat) (st : St) : Step own st st :=
-  ⟨rfl, fun _ => ⟨[], [], by simp⟩, Nat.le_refl _, ⟨[], rfl, by simp⟩, ⟨[], by simp⟩, ⟨rfl, rfl⟩⟩
+  ⟨rfl, fun _ => ⟨[], [], by simp⟩, Nat.le_refl _, ⟨[], rfl, by simp⟩, ⟨[], by simp⟩, Life.refl st⟩
 
 theorem Step.trans {own : Option Nat × Option Nat} {a b c : St} (h1 : Step own a b) (h2 : Step own b c) : Step own a c := by
   obtain ⟨s1, hs1, hf1⟩ := h1.logExt
@@ -756,7 +916,7 @@ theorem Step.trans {own : Option Nat × Option Nat} {a b c : St} (h1 : Step own 
   obtain ⟨e2, he2⟩ := h2.slotsExt
   refine ⟨h2.iter.trans h1.iter, fun hi => ?_, Nat.le_trans h1.occMono h2.occMono,
     ⟨s2 ++ s1, by rw [hs2, hs1, List.append_assoc], ?_⟩, ⟨e1 ++ e2, by rw [he2, he1, List.append_assoc]⟩,
-    ⟨h2.life.1.trans h1.life.1, h2.life.2.trans h1.life.2⟩⟩
+    h1.life.trans h2.life⟩
   · obtain ⟨P1, A1, hk1⟩ := h1.keysIter hi
     obtain ⟨P2, A2, hk2⟩ := h2.keysIter (h1.iter.trans hi)
     exact ⟨P2 ++ P1, A1 ++ A2, by rw [hk2, hk1]; simp⟩
@@ -774,23 +934,31 @@ theorem Step.weaken {own own' : Option Nat × Option Nat} {a b : St} (h : Step o
 theorem Step.of_keys {own : Option Nat × Option Nat} {st st' : St} (hi : st'.isIter = st.isIter) (hk : keys st'.list = keys st.list)
     (ho : st.nextOcc ≤ st'.nextOcc) {e : Ev} (hlog : st'.log = e :: st.log)
     (he : EvOcc own st.nextOcc e) (hs : st'.slotIds = st.slotIds)
-    (hlife : st'.refs = st.refs ∧ st'.dead = st.dead := by exact ⟨rfl, rfl⟩) : Step own st st' :=
+    (hlife : Life st st' := by exact Life.same rfl rfl rfl) : Step own st st' :=
   ⟨hi, fun _ => ⟨[], [], by simp [hk]⟩, ho, ⟨[e], by simp [hlog], fun e' hm => by
     simp only [List.mem_singleton] at hm; rw [hm]; exact he⟩, ⟨[], by simp [hs]⟩, hlife⟩
 
 def NoDestroy (beh : Behaviour) : Prop := ∀ h n, Action.destroy ∉ (beh h n).acts
 
+/-- Destroying the owner from inside its handlers is harmless when its emitters hold a reference while they run
+    the handlers (`Owner.holdsRef`, the code since fix 4d40c98); otherwise the behaviours must not do it. -/
+def Safe (own : Owner) (beh : Behaviour) : Prop := own.holdsRef = true ∨ NoDestroy beh
+
+/-- While a walker runs, an emitter holds a reference besides the handlers' own. -/
+def RefOk (own : Owner) (st : St) : Prop :=
+  own.holdsRef = true → st.isIter = true → (if st.userRef then 2 else 1) ≤ st.refs
+
 /-- What a task needs of the state it starts in. -/
-def TaskOk (task : Task) (st : St) : Prop :=
+def TaskOk (own : Owner) (beh : Behaviour) (task : Task) (st : St) : Prop :=
   match task with
   | .emitter _ _ => True
   | .unref => False
-  | .runEvent _ _ => True
+  | .runEvent _ _ => own.holdsRef = true → (if st.userRef then 2 else 1) ≤ st.refs
   | .walk _ _ occ cur => st.isIter = true ∧ (∀ k, cur = some k → k ∈ keys st.list) ∧ occ < st.nextOcc
   | .unbindId id => id ≠ TOMBSTONE
   | .unbindLoopOrig _ _ => False
   | .call key fn fl occ => fn ≠ none ∧ key < st.slotIds.length ∧ ∀ h n, EvOk (Ev.enter key h n fl occ) st.log
-  | .acts _ _ as => ∀ a ∈ as, a ≠ Action.destroy
+  | .acts _ _ as => NoDestroy beh → ∀ a ∈ as, a ≠ Action.destroy
   | .destroyLoop _ => False
 
 /-- the occurrence a task delivers for -/
@@ -799,24 +967,64 @@ def occOf : Task → Option Nat × Option Nat
   | .call _ _ _ occ => (none, some occ)
   | _ => (none, none)
 
-def Post (own : Option Nat × Option Nat) (st : St) : Res (St × Int) → Prop
-  | .ok (st', _) => Inv st' ∧ Step own st st'
+/-- tasks during which the owner may be destroyed (never under a walker) -/
+def canDie : Task → Bool
+  | .walk _ _ _ _ => false
+  | .runEvent _ _ => false
+  | _ => true
+
+/-- What is known of a task that ended with the owner destroyed. -/
+def DeadStep (st st' : St) : Prop := TraceOk st'.log ∧ ∃ seg, st'.log = seg ++ st.log
+
+def Post (own : Owner) (task : Task) (st : St) : Res (St × Int) → Prop
+  | .ok (st', _) =>
+      (st'.dead = false ∧ Inv st' ∧ RefOk own st' ∧ Step (occOf task) st st') ∨
+      (st'.dead = true ∧ canDie task = true ∧ st.isIter = false ∧ DeadStep st st')
   | .ub _ => False
   | .outOfFuel => True
+
+theorem Post.alive {own : Owner} {task : Task} {st st' : St} {r : Int} (h : Post own task st (.ok (st', r)))
+    (hi : st.isIter = true ∨ canDie task = false) : Inv st' ∧ RefOk own st' ∧ Step (occOf task) st st' := by
+  rcases h with ⟨_, h1, h2, h3⟩ | ⟨_, hc, hni, _⟩
+  · exact ⟨h1, h2, h3⟩
+  · rcases hi with hi | hi
+    · rw [hni] at hi; cases hi
+    · rw [hc] at hi; cases hi
+
+/-- `Inv` does not mention the handlers' reference flag. -/
+theorem Inv.of_userRef {st : St} (h : Inv st) (u : Bool) : Inv { st with userRef := u } :=
+  ⟨h.keysNodup, h.keysLt, h.idsUnique, h.idsPos, h.liveFn, h.tombIter, h.slotPos, h.logKeys, h.boundInfo, h.liveIff, h.trace,
+    h.order, h.alive⟩
+
+/-- RefOk only looks at the guard, the flag and the count. -/
+theorem RefOk.of_eq {own : Owner} {st st' : St} (h : RefOk own st) (hi : st'.isIter = st.isIter) (hu : st'.userRef = st.userRef)
+    (hr : st'.refs = st.refs) : RefOk own st' := by
+  intro ho hit
+  rw [hu, hr]; exact h ho (by rw [← hi]; exact hit)
 
 section
 variable (own : Owner) (beh : Behaviour)
 
+/-- the handler interpreter takes no action on an owner that is gone -/
+theorem exec_acts_dead {cfg : Cfg} {fuel : Nat} {self i : Nat} {as : List Action} {st : St} (hd : st.dead = true) :
+    exec cfg own beh (fuel + 1) (.acts self i as) st = .ok (st, 0) := by
+  cases as with
+  | nil => simp [exec]
+  | cons a rest => simp [exec, hd]
+
 /-- induction hypothesis of the main theorem, for one amount of fuel -/
 def Good (fuel : Nat) : Prop :=
-  ∀ task st, Inv st → TaskOk task st → Post (occOf task) st (exec Cfg.repaired own beh fuel task st)
+  ∀ task st, Inv st → RefOk own st → TaskOk own beh task st → Post own task st (exec Cfg.repaired own beh fuel task st)
 
-theorem good_runEvent {fuel : Nat} (ih : Good own beh fuel) (wf : Bool) (ev : Int) (st : St) (h : Inv st) :
-    Post (none, none) st (exec Cfg.repaired own beh (fuel + 1) (.runEvent wf ev) st) := by
+theorem good_runEvent {fuel : Nat} (ih : Good own beh fuel) (wf : Bool) (ev : Int) (st : St) (h : Inv st) (hro : RefOk own st)
+    (hok : TaskOk own beh (.runEvent wf ev) st) :
+    Post own (.runEvent wf ev) st (exec Cfg.repaired own beh (fuel + 1) (.runEvent wf ev) st) := by
   simp only [exec]
   have h1 : Inv { st with isIter := true, nextOcc := st.nextOcc + 1, log := Ev.occBegin st.nextOcc ev wf :: st.log } :=
     h.of_push ⟨rfl, rfl⟩ rfl rfl rfl rfl (by simp [Ev.key?]) (by simp [EvOk]) (fun b hb ht => ⟨rfl, (h.tombIter b hb ht).2⟩)
-  have hw := ih (.walk wf ev st.nextOcc (firstOf st.list)) _ h1 ⟨rfl, fun k hk => firstOf_mem hk, Nat.lt_succ_self _⟩
+  have hro1 : RefOk own { st with isIter := true, nextOcc := st.nextOcc + 1, log := Ev.occBegin st.nextOcc ev wf :: st.log } :=
+    fun ho _ => hok ho
+  have hw := ih (.walk wf ev st.nextOcc (firstOf st.list)) _ h1 hro1 ⟨rfl, fun k hk => firstOf_mem hk, Nat.lt_succ_self _⟩
   have hfires : ∀ (seg : List Ev), (∀ e ∈ seg, EvOcc (some st.nextOcc, some st.nextOcc) (st.nextOcc + 1) e) →
       ∀ e ∈ Ev.occEnd st.nextOcc :: (seg ++ [Ev.occBegin st.nextOcc ev wf]), EvOcc (none, none) st.nextOcc e := by
     intro seg hf e hm
@@ -845,22 +1053,39 @@ theorem good_runEvent {fuel : Nat} (ih : Good own beh fuel) (wf : Bool) (ev : In
   | ok p =>
     obtain ⟨st2, r⟩ := p
     rw [hres] at hw
-    obtain ⟨h2, s2⟩ := hw
+    obtain ⟨h2, hro2, s2⟩ := hw.alive (Or.inl rfl)
     simp only
     rw [if_neg (show ¬ st2.dead = true by rw [h2.alive.2]; simp)]
+    -- reference accounting for the state after the walk, with the guard restored
+    have hlife : ∀ st3 : St, st3.refs = st2.refs → st3.dead = st2.dead → st3.userRef = st2.userRef → Life st st3 := by
+      intro st3 e1 e2 e3
+      exact (s2.life).trans (Life.same e1 e2 e3) |> fun x => by
+        obtain ⟨a, b, c⟩ := x
+        exact ⟨a, b, c⟩
+    have hro3 : ∀ st3 : St, st3.refs = st2.refs → st3.userRef = st2.userRef → st3.isIter = st.isIter → RefOk own st3 := by
+      intro st3 e1 e3 ei ho hit
+      have hst := hro ho (by rw [← ei]; exact hit)
+      obtain ⟨_, hr, hu⟩ := s2.life
+      simp only at hr hu
+      rw [e1, e3]
+      cases hu1 : st.userRef <;> cases hu2 : st2.userRef <;> simp_all <;> omega
     split
     · rename_i hc
       simp only [Bool.and_eq_true, Bool.not_eq_true'] at hc
       obtain ⟨seg, hseg, hfseg⟩ := s2.logExt
-      refine ⟨h2.of_sweep ⟨rfl, rfl⟩ rfl rfl rfl rfl, rfl, fun hi => ?_, Nat.le_trans (Nat.le_succ _) s2.occMono,
-        ⟨Ev.occEnd st.nextOcc :: (seg ++ [Ev.occBegin st.nextOcc ev wf]), by simp [hseg], hfires seg hfseg⟩, s2.slotsExt, s2.life⟩
+      refine Or.inl ⟨h2.alive.2, h2.of_sweep ⟨rfl, rfl⟩ rfl rfl rfl rfl, hro3 _ rfl rfl rfl, rfl, fun hi => ?_,
+        Nat.le_trans (Nat.le_succ _) s2.occMono,
+        ⟨Ev.occEnd st.nextOcc :: (seg ++ [Ev.occBegin st.nextOcc ev wf]), by simp [hseg], hfires seg hfseg⟩, s2.slotsExt,
+        hlife _ rfl rfl rfl⟩
       rw [hc.1] at hi; cases hi
     · rename_i hc
       simp only [Bool.and_eq_true, Bool.not_eq_true', not_and, Bool.not_eq_true] at hc
       obtain ⟨seg, hseg, hfseg⟩ := s2.logExt
-      refine ⟨h2.of_push ⟨rfl, rfl⟩ rfl rfl rfl rfl (by simp [Ev.key?]) (by simp [EvOk]) ?_, rfl, fun _ => s2.keysIter rfl,
+      refine Or.inl ⟨h2.alive.2, h2.of_push ⟨rfl, rfl⟩ rfl rfl rfl rfl (by simp [Ev.key?]) (by simp [EvOk]) ?_, hro3 _ rfl rfl rfl,
+        rfl, fun _ => s2.keysIter rfl,
         Nat.le_trans (Nat.le_succ _) s2.occMono,
-        ⟨Ev.occEnd st.nextOcc :: (seg ++ [Ev.occBegin st.nextOcc ev wf]), by simp [hseg], hfires seg hfseg⟩, s2.slotsExt, s2.life⟩
+        ⟨Ev.occEnd st.nextOcc :: (seg ++ [Ev.occBegin st.nextOcc ev wf]), by simp [hseg], hfires seg hfseg⟩, s2.slotsExt,
+        hlife _ rfl rfl rfl⟩
       intro b hb ht
       have hnd := (h2.tombIter b hb ht).2
       refine ⟨?_, hnd⟩
@@ -868,10 +1093,9 @@ theorem good_runEvent {fuel : Nat} (ih : Good own beh fuel) (wf : Bool) (ev : In
       | true => rfl
       | false => rw [hc hi] at hnd; cases hnd
 
-
-theorem good_call {fuel : Nat} (hb : NoDestroy beh) (ih : Good own beh fuel) (key : Nat) (fn : Option Nat) (fl occ : Nat) (st : St)
-    (h : Inv st) (hok : TaskOk (.call key fn fl occ) st) :
-    Post (none, some occ) st (exec Cfg.repaired own beh (fuel + 1) (.call key fn fl occ) st) := by
+theorem good_call {fuel : Nat} (ih : Good own beh fuel) (key : Nat) (fn : Option Nat) (fl occ : Nat) (st : St)
+    (h : Inv st) (hro : RefOk own st) (hok : TaskOk own beh (.call key fn fl occ) st) :
+    Post own (.call key fn fl occ) st (exec Cfg.repaired own beh (fuel + 1) (.call key fn fl occ) st) := by
   obtain ⟨hfn, hkey, hev⟩ := hok
   cases fn with
   | none => exact absurd rfl hfn
@@ -881,14 +1105,16 @@ theorem good_call {fuel : Nat} (hb : NoDestroy beh) (ih : Good own beh fuel) (ke
                             log := Ev.enter key hh (st.inv hh) fl occ :: st.log } :=
       h.of_push ⟨rfl, rfl⟩ rfl rfl rfl rfl (by intro k hk; simp only [Ev.key?, Option.some.injEq] at hk; omega) (hev _ _)
         (fun b hb' ht => h.tombIter b hb' ht)
-    have hacts : TaskOk (.acts key 0 (if fl / EV_DESTROY % 2 = 1 then [] else (beh hh (st.inv hh)).acts))
+    have hro1 : RefOk own ({ st with inv := fun x => if x = hh then st.inv hh + 1 else st.inv x,
+                                     log := Ev.enter key hh (st.inv hh) fl occ :: st.log } : St) := hro.of_eq rfl rfl rfl
+    have hacts : TaskOk own beh (.acts key 0 (if fl / EV_DESTROY % 2 = 1 then [] else (beh hh (st.inv hh)).acts))
         { st with inv := fun x => if x = hh then st.inv hh + 1 else st.inv x,
                   log := Ev.enter key hh (st.inv hh) fl occ :: st.log } := by
-      intro a ha
+      intro hb a ha
       split at ha
       · cases ha
       · intro e; subst e; exact hb _ _ ha
-    have hw := ih _ _ h1 hacts
+    have hw := ih _ _ h1 hro1 hacts
     cases hres : exec Cfg.repaired own beh fuel (.acts key 0 (if fl / EV_DESTROY % 2 = 1 then [] else (beh hh (st.inv hh)).acts))
         { st with inv := fun x => if x = hh then st.inv hh + 1 else st.inv x,
                   log := Ev.enter key hh (st.inv hh) fl occ :: st.log } with
@@ -897,24 +1123,29 @@ theorem good_call {fuel : Nat} (hb : NoDestroy beh) (ih : Good own beh fuel) (ke
     | ok p =>
       obtain ⟨st2, r⟩ := p
       rw [hres] at hw
-      obtain ⟨h2, s2⟩ := hw
-      refine ⟨h2.of_push ⟨rfl, rfl⟩ rfl rfl rfl rfl (by simp [Ev.key?]) (by simp [EvOk]) (fun b hb' ht => h2.tombIter b hb' ht), ?_⟩
-      obtain ⟨seg, hseg, hfseg⟩ := s2.logExt
-      refine ⟨s2.iter, s2.keysIter, s2.occMono,
-        ⟨Ev.leave key occ (beh hh (st.inv hh)).ret :: (seg ++ [Ev.enter key hh (st.inv hh) fl occ]), by simp [St.push, hseg], ?_⟩, s2.slotsExt, s2.life⟩
-      intro e hm
-      simp only [List.mem_cons, List.mem_append, List.not_mem_nil, or_false] at hm
-      rcases hm with rfl | hm | rfl
-      · exact Or.inr (Or.inr rfl)
-      · exact (hfseg e hm).weaken (fun o h => by cases h) (fun o h => by cases h)
-      · trivial
+      rcases hw with ⟨hd2, h2, hro2, s2⟩ | ⟨hd2, _, hni, htr, seg, hseg⟩
+      · refine Or.inl ⟨hd2, h2.of_push ⟨rfl, rfl⟩ rfl rfl rfl rfl (by simp [Ev.key?]) (by simp [EvOk]) (fun b hb' ht => h2.tombIter b hb' ht),
+          hro2.of_eq rfl rfl rfl, ?_⟩
+        obtain ⟨seg, hseg, hfseg⟩ := s2.logExt
+        refine ⟨s2.iter, s2.keysIter, s2.occMono,
+          ⟨Ev.leave key occ (beh hh (st.inv hh)).ret :: (seg ++ [Ev.enter key hh (st.inv hh) fl occ]), by simp [St.push, hseg], ?_⟩,
+          s2.slotsExt, s2.life.trans (Life.same rfl rfl rfl)⟩
+        intro e hm
+        simp only [List.mem_cons, List.mem_append, List.not_mem_nil, or_false] at hm
+        rcases hm with rfl | hm | rfl
+        · exact Or.inr (Or.inr rfl)
+        · exact (hfseg e hm).weaken (fun o h => by cases h) (fun o h => by cases h)
+        · trivial
+      · -- the owner was destroyed while the handler ran: the return is recorded, nothing else happens
+        refine Or.inr ⟨hd2, rfl, hni, ⟨trivial, htr⟩, Ev.leave key occ (beh hh (st.inv hh)).ret :: (seg ++ [Ev.enter key hh (st.inv hh) fl occ]), ?_⟩
+        simp [St.push, hseg]
 
 theorem good_walk {fuel : Nat} (ih : Good own beh fuel) (wf : Bool) (ev : Int) (occ : Nat) (cur : Option Nat) (st : St)
-    (h : Inv st) (hok : TaskOk (.walk wf ev occ cur) st) :
-    Post (some occ, some occ) st (exec Cfg.repaired own beh (fuel + 1) (.walk wf ev occ cur) st) := by
+    (h : Inv st) (hro : RefOk own st) (hok : TaskOk own beh (.walk wf ev occ cur) st) :
+    Post own (.walk wf ev occ cur) st (exec Cfg.repaired own beh (fuel + 1) (.walk wf ev occ cur) st) := by
   obtain ⟨hit, hcur, hocc⟩ := hok
   cases cur with
-  | none => simp only [exec]; exact ⟨h, Step.refl _ st⟩
+  | none => simp only [exec]; exact Or.inl ⟨h.alive.2, h, hro, Step.refl _ st⟩
   | some k =>
     have hk : k ∈ keys st.list := hcur k rfl
     obtain ⟨b, hfb⟩ := findKey_of_mem hk
@@ -935,18 +1166,21 @@ theorem good_walk {fuel : Nat} (ih : Good own beh fuel) (wf : Bool) (ev : Int) (
             (not_liveAt_fire_oneshot h.trace ⟨id, ev', first, hm⟩ ho) ((h.liveIff b.key).1 ⟨b, hbm, rfl, hlive⟩) hit (by simp) rfl
         | false =>
           exact h.of_fire_keep ⟨rfl, rfl⟩ hbm hlive ho (by simp) rfl rfl (fun x hx hxt => ⟨hit, by simpa using (h.tombIter x hx hxt).2⟩)
+      have hro1 : RefOk own { st with
+          list := if b.flags.oneshot = true then modifyKey st.list b.key (fun b => { b with id := TOMBSTONE }) else st.list,
+          needsDelete := b.flags.oneshot || st.needsDelete, log := Ev.fire b.key occ :: st.log } := hro.of_eq rfl rfl rfl
       have hkeys1 : keys (if b.flags.oneshot = true then modifyKey st.list b.key (fun b => { b with id := TOMBSTONE }) else st.list)
           = keys st.list := by
         split
         · exact keys_modifyKey _ _ _ (fun _ => rfl)
         · rfl
-      have hcall : TaskOk (.call b.key b.fn (if b.flags.oneshot = true then EV_FIRE + EV_UNBIND else EV_FIRE) occ)
+      have hcall : TaskOk own beh (.call b.key b.fn (if b.flags.oneshot = true then EV_FIRE + EV_UNBIND else EV_FIRE) occ)
           { st with
             list := if b.flags.oneshot = true then modifyKey st.list b.key (fun b => { b with id := TOMBSTONE }) else st.list,
             needsDelete := b.flags.oneshot || st.needsDelete, log := Ev.fire b.key occ :: st.log } := by
         refine ⟨h.liveFn b hbm hlive, h.keysLt b hbm, fun hh n => ⟨fun _ => ⟨_, rfl⟩, fun he => ?_⟩⟩
         split at he <;> simp [EV_FIRE, EV_UNBIND] at he
-      have hw := ih _ _ h1 hcall
+      have hw := ih _ _ h1 hro1 hcall
       cases hres : exec Cfg.repaired own beh fuel
           (.call b.key b.fn (if b.flags.oneshot = true then EV_FIRE + EV_UNBIND else EV_FIRE) occ)
           { st with
@@ -957,20 +1191,20 @@ theorem good_walk {fuel : Nat} (ih : Good own beh fuel) (wf : Bool) (ev : Int) (
       | ok p =>
         obtain ⟨st2, r⟩ := p
         rw [hres] at hw
-        obtain ⟨h2, s2⟩ := hw
+        obtain ⟨h2, hro2, s2⟩ := hw.alive (Or.inl hit)
         have s02 : Step (some occ, some occ) st st2 := (Step.of_keys (st := st) (st' := { st with
             list := if b.flags.oneshot = true then modifyKey st.list b.key (fun b => { b with id := TOMBSTONE }) else st.list,
             needsDelete := b.flags.oneshot || st.needsDelete, log := Ev.fire b.key occ :: st.log }) rfl hkeys1
             (Nat.le_refl _) rfl (Or.inr rfl) rfl).trans (s2.weaken (fun o h => by cases h) (fun o h => Or.inr h))
         simp only
         split
-        · exact ⟨h2, s02⟩
+        · exact Or.inl ⟨h2.alive.2, h2, hro2, s02⟩
         · have hk2 : b.key ∈ keys st2.list := s02.mem_keys hit hk
           cases hn : nextOf st2.list b.key with
           | none => exact absurd hk2 (nextOf_none hn)
           | some nx =>
             simp only
-            have hw2 := ih (.walk wf ev occ nx) st2 h2 ⟨s02.iter.trans hit, fun k' hk' => nextOf_some_mem (hk' ▸ hn),
+            have hw2 := ih (.walk wf ev occ nx) st2 h2 hro2 ⟨s02.iter.trans hit, fun k' hk' => nextOf_some_mem (hk' ▸ hn),
               Nat.lt_of_lt_of_le hocc s02.occMono⟩
             cases hres2 : exec Cfg.repaired own beh fuel (.walk wf ev occ nx) st2 with
             | outOfFuel => simp [Post]
@@ -978,19 +1212,27 @@ theorem good_walk {fuel : Nat} (ih : Good own beh fuel) (wf : Bool) (ev : Int) (
             | ok p2 =>
               obtain ⟨st3, r3⟩ := p2
               rw [hres2] at hw2
-              exact ⟨hw2.1, s02.trans hw2.2⟩
+              obtain ⟨h3, hro3, s3⟩ := hw2.alive (Or.inr rfl)
+              exact Or.inl ⟨h3.alive.2, h3, hro3, s02.trans s3⟩
     · cases hn : nextOf st.list b.key with
       | none => exact absurd hk (nextOf_none hn)
       | some nx =>
         simp only
-        exact ih (.walk wf ev occ nx) st h ⟨hit, fun k' hk' => nextOf_some_mem (hk' ▸ hn), hocc⟩
+        have hw2 := ih (.walk wf ev occ nx) st h hro ⟨hit, fun k' hk' => nextOf_some_mem (hk' ▸ hn), hocc⟩
+        cases hres2 : exec Cfg.repaired own beh fuel (.walk wf ev occ nx) st with
+        | outOfFuel => simp [Post]
+        | ub w => rw [hres2] at hw2; exact hw2.elim
+        | ok p2 =>
+          obtain ⟨st3, r3⟩ := p2
+          rw [hres2] at hw2
+          obtain ⟨h3, hro3, s3⟩ := hw2.alive (Or.inr rfl)
+          exact Or.inl ⟨h3.alive.2, h3, hro3, s3⟩
 
-
-theorem good_unbindId {fuel : Nat} (ih : Good own beh fuel) (id : Int) (st : St) (h : Inv st) (hid : id ≠ TOMBSTONE) :
-    Post (none, none) st (exec Cfg.repaired own beh (fuel + 1) (.unbindId id) st) := by
+theorem good_unbindId {fuel : Nat} (ih : Good own beh fuel) (id : Int) (st : St) (h : Inv st) (hro : RefOk own st) (hid : id ≠ TOMBSTONE) :
+    Post own (.unbindId id) st (exec Cfg.repaired own beh (fuel + 1) (.unbindId id) st) := by
   simp only [exec, repaired_notifyLast, if_true]
   cases hf : findId st.list id with
-  | none => exact ⟨h, Step.refl _ st⟩
+  | none => exact Or.inl ⟨h.alive.2, h, hro, Step.refl _ st⟩
   | some b =>
     obtain ⟨hbm, hbid⟩ := findId_some hf
     have hlive : b.id ≠ TOMBSTONE := by rw [hbid]; exact hid
@@ -1004,30 +1246,34 @@ theorem good_unbindId {fuel : Nat} (ih : Good own beh fuel) (id : Int) (st : St)
       | true =>
         exact h.of_kill ⟨rfl, rfl⟩ hbm hlive (f := fun b => { b with id := TOMBSTONE, ev := -1, fn := none }) (fun a => ⟨rfl, rfl, rfl⟩)
           (by simp) rfl rfl rfl rfl (not_liveAt_req _ _) ((h.liveIff b.key).1 ⟨b, hbm, rfl, hlive⟩) rfl (by simp) rfl
+    have hro1 : RefOk own { st with
+        list := if (!st.isIter) = true then eraseKey st.list b.key
+                else modifyKey st.list b.key (fun b => { b with id := TOMBSTONE, ev := -1, fn := none }),
+        needsDelete := st.isIter || st.needsDelete, log := Ev.unbindReq b.key :: st.log } := hro.of_eq rfl rfl rfl
     have s1 : Step (none, none) st { st with
         list := if (!st.isIter) = true then eraseKey st.list b.key
                 else modifyKey st.list b.key (fun b => { b with id := TOMBSTONE, ev := -1, fn := none }),
         needsDelete := st.isIter || st.needsDelete, log := Ev.unbindReq b.key :: st.log } := by
-      refine ⟨rfl, fun hi => ⟨[], [], ?_⟩, Nat.le_refl _, ⟨[Ev.unbindReq b.key], rfl, by simp [EvOcc]⟩, ⟨[], by simp⟩, ⟨rfl, rfl⟩⟩
+      refine ⟨rfl, fun hi => ⟨[], [], ?_⟩, Nat.le_refl _, ⟨[Ev.unbindReq b.key], rfl, by simp [EvOcc]⟩, ⟨[], by simp⟩, Life.same rfl rfl rfl⟩
       simp only [hi, Bool.not_true, Bool.false_eq_true, if_false]
       have hkk := keys_modifyKey st.list b.key (fun b : Node => { b with id := TOMBSTONE, ev := -1, fn := none }) (fun _ => rfl)
       rw [hkk]; simp
     cases hu : b.flags.unbind with
-    | false => simp only [Bool.false_eq_true, if_false]; exact ⟨h1, s1⟩
+    | false => simp only [Bool.false_eq_true, if_false]; exact Or.inl ⟨h1.alive.2, h1, hro1, s1⟩
     | true =>
       simp only [if_true]
       cases hfn : b.fn with
-      | none => simp only; exact ⟨h1, s1⟩
+      | none => simp only; exact Or.inl ⟨h1.alive.2, h1, hro1, s1⟩
       | some hh =>
         simp only
-        have hcall : TaskOk (.call b.key (some hh) EV_UNBIND 0) { st with
+        have hcall : TaskOk own beh (.call b.key (some hh) EV_UNBIND 0) { st with
             list := if (!st.isIter) = true then eraseKey st.list b.key
                     else modifyKey st.list b.key (fun b => { b with id := TOMBSTONE, ev := -1, fn := none }),
             needsDelete := st.isIter || st.needsDelete, log := Ev.unbindReq b.key :: st.log } := by
           refine ⟨by simp, h.keysLt b hbm, fun _ _ => ⟨fun ho => by simp [EV_UNBIND] at ho, fun _ => ?_⟩⟩
           obtain ⟨id', ev', first, hm, _⟩ := h.boundInfo b hbm
           exact ⟨_, b.flags, rfl, ⟨id', ev', first, List.mem_cons_of_mem _ hm⟩, hu⟩
-        have hw := ih _ _ h1 hcall
+        have hw := ih _ _ h1 hro1 hcall
         cases hres : exec Cfg.repaired own beh fuel (.call b.key (some hh) EV_UNBIND 0) { st with
             list := if (!st.isIter) = true then eraseKey st.list b.key
                     else modifyKey st.list b.key (fun b => { b with id := TOMBSTONE, ev := -1, fn := none }),
@@ -1037,138 +1283,270 @@ theorem good_unbindId {fuel : Nat} (ih : Good own beh fuel) (id : Int) (st : St)
         | ok p =>
           obtain ⟨st2, r⟩ := p
           rw [hres] at hw
-          exact ⟨hw.1, s1.trans (hw.2.weaken (fun o h => h) (fun o h => by injection h with h; exact Or.inl h.symm))⟩
+          rcases hw with ⟨hd2, h2, hro2, s2⟩ | ⟨hd2, _, hni, htr, seg, hseg⟩
+          · exact Or.inl ⟨hd2, h2, hro2, s1.trans (s2.weaken (fun o h => h) (fun o h => by injection h with h; exact Or.inl h.symm))⟩
+          · exact Or.inr ⟨hd2, rfl, hni, htr, seg ++ [Ev.unbindReq b.key], by simp [hseg]⟩
 
 theorem slotIds_ne_tomb {st : St} (h : Inv st) {slot : Nat} {id : Int} (hs : st.slotIds[slot]? = some id) : id ≠ TOMBSTONE := by
   have := h.slotPos id (List.mem_of_getElem? hs)
   simp [TOMBSTONE]; omega
 
-theorem good_acts {fuel : Nat} (ih : Good own beh fuel) (self i : Nat) (as : List Action) (st : St)
-    (h : Inv st) (hok : TaskOk (.acts self i as) st) :
-    Post (none, none) st (exec Cfg.repaired own beh (fuel + 1) (.acts self i as) st) := by
+/-- `tickit_pen_unref` / `tickit_term_unref` when no walker runs (or when another reference remains). -/
+theorem unref_post {fuel : Nat} (hs : Safe own beh) {st : St} (h : Inv st) (hro : RefOk own st)
+    (hsafe : st.isIter = true → 2 ≤ st.refs) :
+    match exec Cfg.repaired own beh (fuel + 1) .unref st with
+    | .ok (st', _) =>
+        (st'.dead = false ∧ 2 ≤ st.refs ∧ st' = { st with refs := st.refs - 1 }) ∨
+        (st'.dead = true ∧ st.isIter = false ∧ TraceOk st'.log ∧ ∃ seg, st'.log = seg ++ st.log)
+    | .ub _ => False
+    | .outOfFuel => True := by
+  have hd := h.alive.2
+  have hr := h.alive.1
+  simp only [exec]
+  rw [if_neg (show ¬ ((st.dead || st.refs == 0) = true) by rw [hd]; simp; omega)]
+  by_cases h1 : st.refs = 1
+  · rw [if_pos (by simp [h1])]
+    have hni : st.isIter = false := by
+      cases hi : st.isIter with
+      | false => rfl
+      | true => have := hsafe hi; omega
+    have hnt : ∀ b ∈ st.list, b.id ≠ TOMBSTONE := by
+      intro b hb ht
+      have := (h.tombIter b hb ht).1
+      rw [hni] at this; cases this
+    have hfn : ∀ b ∈ st.list.reverse, b.fn ≠ none := fun b hb => h.liveFn b (List.mem_reverse.1 hb) (hnt b (List.mem_reverse.1 hb))
+    cases hc : exec Cfg.repaired own beh fuel (.destroyLoop st.list.reverse) st with
+    | outOfFuel => trivial
+    | ub w => exact absurd hc (destroyLoop_noub own beh _ _ _ _ hfn)
+    | ok p =>
+      obtain ⟨st1, r⟩ := p
+      obtain ⟨_, seg, hseg, _, hshape⟩ := destroyLoop_spec own beh _ _ _ _ _ hfn hc
+      exact Or.inr ⟨rfl, hni, by simp only; rw [hseg]; exact h.trace.append_destroy hshape, seg, hseg⟩
+  · rw [if_neg (by simp [h1])]
+    exact Or.inl ⟨hd, by omega, rfl⟩
+
+theorem good_acts {fuel : Nat} (hs : Safe own beh) (ih : Good own beh fuel) (self i : Nat) (as : List Action) (st : St)
+    (h : Inv st) (hro : RefOk own st) (hok : TaskOk own beh (.acts self i as) st) :
+    Post own (.acts self i as) st (exec Cfg.repaired own beh (fuel + 1) (.acts self i as) st) := by
   cases as with
-  | nil => simp only [exec]; exact ⟨h, Step.refl _ st⟩
+  | nil => simp only [exec]; exact Or.inl ⟨h.alive.2, h, hro, Step.refl _ st⟩
   | cons a rest =>
-    have hrest : ∀ x ∈ rest, x ≠ Action.destroy := fun x hx => hok x (List.mem_cons_of_mem _ hx)
-    have ha : a ≠ Action.destroy := hok a (List.mem_cons_self ..)
+    have hrest : TaskOk own beh (.acts self (i + 1) rest) st := fun hb x hx => hok hb x (List.mem_cons_of_mem _ hx)
     have h1 : Inv (st.push (Ev.actBegin i)) :=
       h.of_push ⟨rfl, rfl⟩ rfl rfl rfl rfl (by simp [Ev.key?]) (by simp [EvOk]) (fun b hb ht => h.tombIter b hb ht)
+    have hro1 : RefOk own (st.push (Ev.actBegin i)) := hro.of_eq rfl rfl rfl
     have s1 : Step (none, none) st (st.push (Ev.actBegin i)) :=
       Step.of_keys rfl rfl (Nat.le_refl _) rfl trivial rfl
     -- whatever the action does, it ends in a good state; then the rest of the list runs
-    have hcont : ∀ st2, Inv st2 → Step (none, none) st st2 →
-        Post (none, none) st (exec Cfg.repaired own beh fuel (.acts self (i + 1) rest) (st2.push Ev.actEnd)) := by
-      intro st2 h2 s2
+    have hcont : ∀ st2, Inv st2 → RefOk own st2 → Step (none, none) st st2 →
+        Post own (.acts self i (a :: rest)) st (exec Cfg.repaired own beh fuel (.acts self (i + 1) rest) (st2.push Ev.actEnd)) := by
+      intro st2 h2 hro2 s2
       have h3 : Inv (st2.push Ev.actEnd) :=
         h2.of_push ⟨rfl, rfl⟩ rfl rfl rfl rfl (by simp [Ev.key?]) (by simp [EvOk]) (fun b hb ht => h2.tombIter b hb ht)
       have s3 : Step (none, none) st (st2.push Ev.actEnd) :=
         s2.trans (Step.of_keys rfl rfl (Nat.le_refl _) rfl trivial rfl)
-      have hw := ih (.acts self (i + 1) rest) _ h3 hrest
+      have hw := ih (.acts self (i + 1) rest) _ h3 (hro2.of_eq rfl rfl rfl) hrest
       cases hres : exec Cfg.repaired own beh fuel (.acts self (i + 1) rest) (st2.push Ev.actEnd) with
       | outOfFuel => simp [Post]
       | ub w => rw [hres] at hw; exact hw.elim
       | ok p =>
         obtain ⟨st4, r⟩ := p
         rw [hres] at hw
-        exact ⟨hw.1, s3.trans hw.2⟩
+        rcases hw with ⟨hd4, h4, hro4, s4⟩ | ⟨hd4, _, hni, htr, seg, hseg⟩
+        · exact Or.inl ⟨hd4, h4, hro4, s3.trans s4⟩
+        · obtain ⟨seg3, hseg3, _⟩ := s3.logExt
+          exact Or.inr ⟨hd4, rfl, by rw [← s3.iter]; exact hni, htr, seg ++ seg3, by rw [hseg, hseg3, List.append_assoc]⟩
+    -- … or with the owner destroyed: the rest of the list is skipped
+    have hdead : ∀ st2 : St, st2.dead = true → st.isIter = false → TraceOk st2.log → (∃ seg, st2.log = seg ++ st.log) →
+        Post own (.acts self i (a :: rest)) st (exec Cfg.repaired own beh fuel (.acts self (i + 1) rest) (st2.push Ev.actEnd)) := by
+      intro st2 hd2 hni htr hseg
+      cases fuel with
+      | zero => simp [exec, Post]
+      | succ f =>
+        rw [exec_acts_dead own beh (show (st2.push Ev.actEnd).dead = true from hd2)]
+        obtain ⟨seg, hseg⟩ := hseg
+        exact Or.inr ⟨hd2, rfl, hni, ⟨trivial, htr⟩, Ev.actEnd :: seg, by simp [St.push, hseg]⟩
     -- an action that is a task
-    have htask : ∀ task, occOf task = (none, none) → TaskOk task (st.push (Ev.actBegin i)) →
-        Post (none, none) st (match exec Cfg.repaired own beh fuel task (st.push (Ev.actBegin i)) with
+    have htask : ∀ task, occOf task = (none, none) → TaskOk own beh task (st.push (Ev.actBegin i)) →
+        Post own (.acts self i (a :: rest)) st (match exec Cfg.repaired own beh fuel task (st.push (Ev.actBegin i)) with
           | .ok (st2, _) => exec Cfg.repaired own beh fuel (.acts self (i + 1) rest) (st2.push Ev.actEnd)
           | e => e) := by
       intro task hocc htok
-      have hw := ih task _ h1 htok
-      rw [hocc] at hw
+      have hw := ih task _ h1 hro1 htok
       cases hres : exec Cfg.repaired own beh fuel task (st.push (Ev.actBegin i)) with
       | outOfFuel => simp [Post]
       | ub w => rw [hres] at hw; exact hw.elim
       | ok p =>
         obtain ⟨st2, r⟩ := p
         rw [hres] at hw
-        exact hcont st2 hw.1 (s1.trans hw.2)
+        rcases hw with ⟨hd2, h2, hro2, s2⟩ | ⟨hd2, _, hni, htr, seg, hseg⟩
+        · rw [hocc] at s2
+          exact hcont st2 h2 hro2 (s1.trans s2)
+        · exact hdead st2 hd2 hni htr ⟨seg ++ [Ev.actBegin i], by simp [hseg, St.push]⟩
     have hnd : st.dead = false := h.alive.2
     cases a with
     | bind ev first flags hh =>
       simp only [exec, hnd, Bool.false_eq_true, if_false]
-      refine hcont _ (h1.of_bind ev first flags hh) (s1.trans ⟨rfl, fun _ => ?_, Nat.le_refl _, ⟨[_], rfl, by simp [EvOcc]⟩, ⟨[_], rfl⟩, ⟨rfl, rfl⟩⟩)
+      refine hcont _ (h1.of_bind ev first flags hh) (hro1.of_eq rfl rfl rfl)
+        (s1.trans ⟨rfl, fun _ => ?_, Nat.le_refl _, ⟨[_], rfl, by simp [EvOcc]⟩, ⟨[_], rfl⟩, Life.same rfl rfl rfl⟩)
       simp only [bindEvent]
       split
       · exact ⟨[st.slotIds.length], [], by simp [St.push]⟩
       · exact ⟨[], [st.slotIds.length], by simp [St.push]⟩
     | unbind slot =>
       simp only [exec, hnd, Bool.false_eq_true, if_false]
-      cases hs : (st.push (Ev.actBegin i)).slotIds[slot]? with
-      | none => simp only; exact hcont _ h1 s1
-      | some id => simp only; exact htask (.unbindId id) rfl (slotIds_ne_tomb h1 hs)
+      cases hsl : (st.push (Ev.actBegin i)).slotIds[slot]? with
+      | none => simp only; exact hcont _ h1 hro1 s1
+      | some id => simp only; exact htask (.unbindId id) rfl (slotIds_ne_tomb h1 hsl)
     | unbindSelf =>
       simp only [exec, hnd, Bool.false_eq_true, if_false]
-      cases hs : (st.push (Ev.actBegin i)).slotIds[self]? with
-      | none => simp only; exact hcont _ h1 s1
-      | some id => simp only; exact htask (.unbindId id) rfl (slotIds_ne_tomb h1 hs)
+      cases hsl : (st.push (Ev.actBegin i)).slotIds[self]? with
+      | none => simp only; exact hcont _ h1 hro1 s1
+      | some id => simp only; exact htask (.unbindId id) rfl (slotIds_ne_tomb h1 hsl)
     | emit ev =>
       simp only [exec, hnd, Bool.false_eq_true, if_false]
       by_cases hc : own.canEmit ev = true
       · simp only [hc, if_true]; exact htask (.emitter (own.wf ev) ev) rfl trivial
-      · simp only [hc]; exact hcont _ h1 s1
-    | destroy => exact absurd rfl ha
+      · simp only [hc]; exact hcont _ h1 hro1 s1
+    | destroy =>
+      -- the handlers drop their own reference (once)
+      have hholds : own.holdsRef = true := by
+        rcases hs with hs | hs
+        · exact hs
+        · exact absurd rfl (hok hs _ (List.mem_cons_self ..))
+      simp only [exec, hnd, Bool.false_eq_true, if_false]
+      cases hu : (st.push (Ev.actBegin i)).userRef with
+      | false => simp only [Bool.false_eq_true, if_false]; exact hcont _ h1 hro1 s1
+      | true =>
+        simp only [if_true]
+        have hu' : st.userRef = true := hu
+        have h1' : Inv { st.push (Ev.actBegin i) with userRef := false } := h1.of_userRef false
+        have hro1' : RefOk own { st.push (Ev.actBegin i) with userRef := false } := by
+          intro ho hit
+          have := hro ho hit
+          rw [hu'] at this
+          simp only [Bool.false_eq_true, if_false]
+          show 1 ≤ st.refs
+          simp only [if_true] at this; omega
+        cases fuel with
+        | zero => simp [exec, Post]
+        | succ f =>
+          have hur := unref_post own beh (fuel := f) hs h1' hro1' (by
+            intro hit
+            have := hro hholds hit
+            rw [hu'] at this
+            simp only [if_true] at this
+            exact this)
+          cases hres : exec Cfg.repaired own beh (f + 1) .unref { st.push (Ev.actBegin i) with userRef := false } with
+          | outOfFuel => simp [Post]
+          | ub w => rw [hres] at hur; exact hur.elim
+          | ok p =>
+            obtain ⟨st2, r⟩ := p
+            rw [hres] at hur
+            simp only
+            rcases hur with ⟨hd2, hge, heq⟩ | ⟨hd2, hni, htr, hseg⟩
+            · subst heq
+              refine hcont _ (h1'.of_refs _ (by simp only [St.push] at hge ⊢; omega)) ?_ ?_
+              · intro ho hit
+                have := hro ho hit
+                rw [hu'] at this
+                simp only [Bool.false_eq_true, if_false, St.push]
+                simp only [if_true] at this; omega
+              · refine s1.trans ⟨rfl, fun _ => ⟨[], [], by simp⟩, Nat.le_refl _, ⟨[], rfl, by simp⟩, ⟨[], by simp⟩, ?_⟩
+                refine ⟨rfl, ?_, fun hx => by cases hx⟩
+                have hge' : 2 ≤ st.refs := hge
+                show st.refs - 1 + (if (st.userRef && !false) = true then 1 else 0) = st.refs
+                rw [hu']; simp; omega
+            · obtain ⟨seg, hseg⟩ := hseg
+              exact hdead st2 hd2 hni htr ⟨seg ++ [Ev.actBegin i], by simp [hseg, St.push]⟩
 
-theorem good_emitter {fuel : Nat} (ih : Good own beh fuel) (wf : Bool) (ev : Int) (st : St) (h : Inv st) :
-    Post (none, none) st (exec Cfg.repaired own beh (fuel + 1) (.emitter wf ev) st) := by
+theorem good_emitter {fuel : Nat} (hs : Safe own beh) (ih : Good own beh fuel) (wf : Bool) (ev : Int) (st : St) (h : Inv st) (hro : RefOk own st) :
+    Post own (.emitter wf ev) st (exec Cfg.repaired own beh (fuel + 1) (.emitter wf ev) st) := by
   simp only [exec]
   cases hh : own.holdsRef with
   | false =>
     simp only [Bool.false_eq_true, if_false]
-    have hw := ih (.runEvent wf ev) st h trivial
+    have hw := ih (.runEvent wf ev) st h hro (fun ho => by rw [hh] at ho; cases ho)
     cases hres : exec Cfg.repaired own beh fuel (.runEvent wf ev) st with
     | outOfFuel => simp [Post]
     | ub w => rw [hres] at hw; exact hw.elim
-    | ok p => obtain ⟨st2, r⟩ := p; rw [hres] at hw; exact hw
+    | ok p =>
+      obtain ⟨st2, r⟩ := p; rw [hres] at hw
+      obtain ⟨h2, hro2, s2⟩ := hw.alive (Or.inr rfl)
+      exact Or.inl ⟨h2.alive.2, h2, hro2, s2⟩
   | true =>
     simp only [if_true]
     have h1 : Inv { st with refs := st.refs + 1 } := h.of_refs _ (by omega)
-    have hw := ih (.runEvent wf ev) _ h1 trivial
+    have hro1 : RefOk own { st with refs := st.refs + 1 } := by
+      intro ho hit
+      have := hro ho hit
+      show (if st.userRef = true then 2 else 1) ≤ st.refs + 1
+      omega
+    have hok1 : TaskOk own beh (.runEvent wf ev) { st with refs := st.refs + 1 } := by
+      intro _
+      have := h.alive.1
+      show (if st.userRef = true then 2 else 1) ≤ st.refs + 1
+      split <;> omega
+    have hw := ih (.runEvent wf ev) _ h1 hro1 hok1
     cases hres : exec Cfg.repaired own beh fuel (.runEvent wf ev) { st with refs := st.refs + 1 } with
     | outOfFuel => simp [Post]
     | ub w => rw [hres] at hw; exact hw.elim
     | ok p =>
       obtain ⟨st2, r⟩ := p
       rw [hres] at hw
-      obtain ⟨h2, s2⟩ := hw
+      obtain ⟨h2, hro2, s2⟩ := hw.alive (Or.inr rfl)
       simp only
-      -- the emitter's own reference is dropped again: the count is back where it was, hence not zero
-      have hrefs : st2.refs = st.refs + 1 := s2.life.1
-      have hdead : st2.dead = false := h2.alive.2
+      obtain ⟨_, hrefs, hmono⟩ := s2.life
+      simp only at hrefs hmono
       cases fuel with
       | zero => simp [exec] at hres
       | succ f =>
-        have c1 : ¬ ((st2.dead || st2.refs == 0) = true) := by rw [hdead, hrefs]; simp
-        have c2 : ¬ ((st2.refs == 1) = true) := by
-          rw [hrefs]; have := h.alive.1; simp; omega
-        simp only [exec]
-        rw [if_neg c1, if_neg c2]
-        refine ⟨?_, s2.iter, s2.keysIter, s2.occMono, s2.logExt, s2.slotsExt, ?_, s2.life.2⟩
-        · have := h2.of_refs (st2.refs - 1) (by rw [hrefs]; have := h.alive.1; omega)
-          exact this
-        · show st2.refs - 1 = st.refs
-          rw [hrefs]; omega
+        -- the emitter drops its reference: the owner dies here iff the handlers dropped theirs and no other emitter is active
+        have hur := unref_post own beh (fuel := f) hs h2 hro2 (by
+          intro hit
+          have hit0 : st.isIter = true := by rw [← s2.iter]; exact hit
+          have := hro hh hit0
+          cases hu1 : st.userRef <;> cases hu2 : st2.userRef <;> simp_all <;> omega)
+        cases hres2 : exec Cfg.repaired own beh (f + 1) .unref st2 with
+        | outOfFuel => simp [Post]
+        | ub w => rw [hres2] at hur; exact hur.elim
+        | ok p2 =>
+          obtain ⟨st3, r3⟩ := p2
+          rw [hres2] at hur
+          simp only
+          rcases hur with ⟨hd3, hge, heq⟩ | ⟨hd3, hni, htr, seg, hseg⟩
+          · subst heq
+            refine Or.inl ⟨h2.alive.2, h2.of_refs _ (by omega), ?_, s2.iter, s2.keysIter, s2.occMono, s2.logExt, s2.slotsExt, ?_⟩
+            · intro ho hit
+              have hit0 : st.isIter = true := by rw [← s2.iter]; exact hit
+              have := hro ho hit0
+              show (if st2.userRef = true then 2 else 1) ≤ st2.refs - 1
+              cases hu1 : st.userRef <;> cases hu2 : st2.userRef <;> simp_all <;> omega
+            · refine ⟨s2.life.1, ?_, hmono⟩
+              show st2.refs - 1 + (if (st.userRef && !st2.userRef) = true then 1 else 0) = st.refs
+              cases hu1 : st.userRef <;> cases hu2 : st2.userRef <;> simp_all <;> omega
+          · obtain ⟨seg2, hseg2, _⟩ := s2.logExt
+            exact Or.inr ⟨hd3, rfl, by rw [← s2.iter]; exact hni, htr, seg ++ seg2, by rw [hseg, hseg2, List.append_assoc]⟩
 
-/-- **Main lemma.**  For every behaviour that never destroys the owner from inside a handler, every task, every
-    fuel: the repaired code never dereferences freed memory or a NULL function, and it keeps the invariant. -/
-theorem exec_good (hb : NoDestroy beh) : ∀ fuel, Good own beh fuel := by
+/-- **Main lemma.**  For every owner and behaviour that are `Safe` — the behaviours never drop the owner's last
+    reference from inside a handler, or the owner's emitters hold a reference while they run the handlers — every task,
+    every fuel: the repaired code never dereferences freed memory or a NULL function, it keeps the invariant while the
+    owner lives, and the owner is never destroyed under a walker. -/
+theorem exec_good (hs : Safe own beh) : ∀ fuel, Good own beh fuel := by
   intro fuel
   induction fuel with
-  | zero => intro task st _ _; simp [exec, Post]
+  | zero => intro task st _ _ _; simp [exec, Post]
   | succ fuel ih =>
-    intro task st h hok
+    intro task st h hro hok
     cases task with
-    | emitter wf ev => exact good_emitter own beh ih wf ev st h
+    | emitter wf ev => exact good_emitter own beh hs ih wf ev st h hro
     | unref => exact hok.elim
-    | runEvent wf ev => exact good_runEvent own beh ih wf ev st h
-    | walk wf ev occ cur => exact good_walk own beh ih wf ev occ cur st h hok
-    | unbindId id => exact good_unbindId own beh ih id st h hok
+    | runEvent wf ev => exact good_runEvent own beh ih wf ev st h hro hok
+    | walk wf ev occ cur => exact good_walk own beh ih wf ev occ cur st h hro hok
+    | unbindId id => exact good_unbindId own beh ih id st h hro hok
     | unbindLoopOrig id loc => exact hok.elim
-    | call key fn fl occ => exact good_call own beh hb ih key fn fl occ st h hok
-    | acts self i as => exact good_acts own beh ih self i as st h hok
+    | call key fn fl occ => exact good_call own beh ih key fn fl occ st h hro hok
+    | acts self i as => exact good_acts own beh hs ih self i as st h hro hok
     | destroyLoop rev => exact hok.elim
 
 end
@@ -1413,13 +1791,13 @@ theorem Inv.of_unbind {st : St} (h : Inv st) {b : Node} (hbm : b ∈ st.list) (h
     exact h.of_kill ⟨rfl, rfl⟩ hbm hlive (f := fun b => { b with id := TOMBSTONE, ev := -1, fn := none }) (fun a => ⟨rfl, rfl, rfl⟩)
       (by simp) rfl rfl rfl rfl (not_liveAt_req _ _) ((h.liveIff b.key).1 ⟨b, hbm, rfl, hlive⟩) rfl (by simp) rfl
 
-/-- A completed call has recorded the entry first. -/
-theorem exec_call_log (hb : NoDestroy beh) {fuel key hh fl occ : Nat} {st st' : St} {r : Int} (h : Inv st)
-    (hok : TaskOk (.call key (some hh) fl occ) st)
+/-- The trace of a completed call: entry, what the handler's actions did (as long as the owner lives, all of it
+    belonging to later occurrences or to notifications), return. -/
+theorem exec_call_shape (hs : Safe own beh) {fuel key hh fl occ : Nat} {st st' : St} {r : Int} (h : Inv st) (hro : RefOk own st)
+    (hok : TaskOk own beh (.call key (some hh) fl occ) st)
     (hex : exec Cfg.repaired own beh fuel (.call key (some hh) fl occ) st = .ok (st', r)) :
-    ∃ seg, st'.log = seg ++ Ev.enter key hh (st.inv hh) fl occ :: st.log := by
-  have hpost := exec_good own beh hb fuel _ _ h hok
-  rw [hex] at hpost
+    ∃ segA, st'.log = Ev.leave key occ r :: (segA ++ Ev.enter key hh (st.inv hh) fl occ :: st.log) ∧
+      (st'.dead = false → ∀ e ∈ segA, EvOcc (none, none) st.nextOcc e) := by
   cases fuel with
   | zero => simp [exec] at hex
   | succ fuel =>
@@ -1429,14 +1807,16 @@ theorem exec_call_log (hb : NoDestroy beh) {fuel key hh fl occ : Nat} {st st' : 
                             log := Ev.enter key hh (st.inv hh) fl occ :: st.log } :=
       h.of_push ⟨rfl, rfl⟩ rfl rfl rfl rfl (by intro k hk; simp only [Ev.key?, Option.some.injEq] at hk; omega) (hev _ _)
         (fun b hb' ht => h.tombIter b hb' ht)
-    have hacts : TaskOk (.acts key 0 (if fl / EV_DESTROY % 2 = 1 then [] else (beh hh (st.inv hh)).acts))
+    have hro1 : RefOk own ({ st with inv := fun x => if x = hh then st.inv hh + 1 else st.inv x,
+                                     log := Ev.enter key hh (st.inv hh) fl occ :: st.log } : St) := hro.of_eq rfl rfl rfl
+    have hacts : TaskOk own beh (.acts key 0 (if fl / EV_DESTROY % 2 = 1 then [] else (beh hh (st.inv hh)).acts))
         { st with inv := fun x => if x = hh then st.inv hh + 1 else st.inv x,
                   log := Ev.enter key hh (st.inv hh) fl occ :: st.log } := by
-      intro a ha
+      intro hb a ha
       split at ha
       · cases ha
       · intro e; subst e; exact hb _ _ ha
-    have hw := exec_good own beh hb fuel _ _ h1 hacts
+    have hw := exec_good own beh hs fuel _ _ h1 hro1 hacts
     cases hres : exec Cfg.repaired own beh fuel (.acts key 0 (if fl / EV_DESTROY % 2 = 1 then [] else (beh hh (st.inv hh)).acts))
         { st with inv := fun x => if x = hh then st.inv hh + 1 else st.inv x,
                   log := Ev.enter key hh (st.inv hh) fl occ :: st.log } with
@@ -1446,13 +1826,26 @@ theorem exec_call_log (hb : NoDestroy beh) {fuel key hh fl occ : Nat} {st st' : 
       obtain ⟨st2, r2⟩ := p
       rw [hres] at hex hw
       simp only at hex
-      injection hex with hex; injection hex with hex _
-      obtain ⟨seg, hseg, _⟩ := hw.2.logExt
-      exact ⟨Ev.leave key occ (beh hh (st.inv hh)).ret :: seg, by rw [← hex]; simp [St.push, hseg]⟩
+      injection hex with hex; injection hex with e1 e2
+      rcases hw with ⟨hd2, _, _, s2⟩ | ⟨hd2, _, _, _, seg, hseg⟩
+      · obtain ⟨seg, hseg, hf⟩ := s2.logExt
+        exact ⟨seg, by rw [← e1, ← e2]; simp [St.push, hseg], fun _ => hf⟩
+      · refine ⟨seg, by rw [← e1, ← e2]; simp [St.push, hseg], fun hd => ?_⟩
+        rw [← e1] at hd
+        simp only [St.push] at hd
+        rw [hd2] at hd; cases hd
+
+/-- A completed call has recorded the entry first. -/
+theorem exec_call_log (hs : Safe own beh) {fuel key hh fl occ : Nat} {st st' : St} {r : Int} (h : Inv st) (hro : RefOk own st)
+    (hok : TaskOk own beh (.call key (some hh) fl occ) st)
+    (hex : exec Cfg.repaired own beh fuel (.call key (some hh) fl occ) st = .ok (st', r)) :
+    ∃ seg, st'.log = seg ++ Ev.enter key hh (st.inv hh) fl occ :: st.log := by
+  obtain ⟨segA, h1, _⟩ := exec_call_shape own beh hs h hro hok hex
+  exact ⟨Ev.leave key occ r :: segA, by rw [h1]; simp⟩
 
 /-- A completed `unbind_event_id` that found the live binding `b`: the request is recorded; if `b` asked
     (`TICKIT_BIND_UNBIND`) its handler was entered with `TICKIT_EV_UNBIND` right after; otherwise nothing else happened. -/
-theorem exec_unbindId_log (hb : NoDestroy beh) {fuel : Nat} {id : Int} {st st' : St} {r : Int} {b : Node} (h : Inv st)
+theorem exec_unbindId_log (hs : Safe own beh) {fuel : Nat} {id : Int} {st st' : St} {r : Int} {b : Node} (h : Inv st) (hro : RefOk own st)
     (hid : id ≠ TOMBSTONE) (hf : findId st.list id = some b)
     (hex : exec Cfg.repaired own beh fuel (.unbindId id) st = .ok (st', r)) :
     (b.flags.unbind = true → ∃ hh n seg, st'.log = seg ++ Ev.enter b.key hh n EV_UNBIND 0 :: Ev.unbindReq b.key :: st.log) ∧
@@ -1471,7 +1864,7 @@ theorem exec_unbindId_log (hb : NoDestroy beh) {fuel : Nat} {id : Int} {st st' :
       | some hh =>
         simp only [hfn] at hex
         have h1 := h.of_unbind hbm hlive
-        have hcall : TaskOk (.call b.key (some hh) EV_UNBIND 0) { st with
+        have hcall : TaskOk own beh (.call b.key (some hh) EV_UNBIND 0) { st with
             list := if (!st.isIter) = true then eraseKey st.list b.key
                     else modifyKey st.list b.key (fun b => { b with id := TOMBSTONE, ev := -1, fn := none }),
             needsDelete := st.isIter || st.needsDelete, log := Ev.unbindReq b.key :: st.log } := by
@@ -1489,12 +1882,100 @@ theorem exec_unbindId_log (hb : NoDestroy beh) {fuel : Nat} {id : Int} {st st' :
           rw [hc] at hex
           simp only at hex
           injection hex with hex; injection hex with hex _
-          obtain ⟨seg, hseg⟩ := exec_call_log own beh hb h1 hcall hc
+          obtain ⟨seg, hseg⟩ := exec_call_log own beh hs h1 (hro.of_eq rfl rfl rfl) hcall hc
           exact ⟨hh, st.inv hh, seg, by rw [← hex]; exact hseg⟩
     · intro hu
       simp only [hu, Bool.false_eq_true, if_false] at hex
       injection hex with hex; injection hex with hex _
       rw [← hex]
+
+end
+
+/-! ### destruction from inside a handler -/
+
+section
+variable (own : Owner) (beh : Behaviour)
+
+/-- An `unref` that destroys the owner (no walker running): every binding of the chain is live, those that asked are
+    notified in reverse chain order, each once, and the chain is freed. -/
+theorem unref_destroys {fuel : Nat} {st st' : St} {r : Int} (h : Inv st) (hni : st.isIter = false)
+    (hex : exec Cfg.repaired own beh fuel .unref st = .ok (st', r)) (hd : st'.dead = true) :
+    (∀ b ∈ st.list, b.id ≠ TOMBSTONE) ∧ st'.list = [] ∧
+    ∃ seg, st'.log = seg ++ st.log ∧ enters seg = (st.list.reverse.filter asked).map (fun b => (b.key, EV_UNBIND + EV_DESTROY)) := by
+  have hnt : ∀ b ∈ st.list, b.id ≠ TOMBSTONE := by
+    intro b hb ht
+    have := (h.tombIter b hb ht).1
+    rw [hni] at this; cases this
+  have hfn : ∀ b ∈ st.list.reverse, b.fn ≠ none := fun b hb => h.liveFn b (List.mem_reverse.1 hb) (hnt b (List.mem_reverse.1 hb))
+  cases fuel with
+  | zero => simp [exec] at hex
+  | succ fuel =>
+    simp only [exec] at hex
+    rw [if_neg (show ¬ ((st.dead || st.refs == 0) = true) by rw [h.alive.2]; have := h.alive.1; simp; omega)] at hex
+    by_cases h1 : st.refs = 1
+    · rw [if_pos (by simp [h1])] at hex
+      cases hc : exec Cfg.repaired own beh fuel (.destroyLoop st.list.reverse) st with
+      | outOfFuel => rw [hc] at hex; simp at hex
+      | ub w => rw [hc] at hex; simp at hex
+      | ok p =>
+        obtain ⟨st1, r1⟩ := p
+        rw [hc] at hex
+        simp only at hex
+        injection hex with hex; injection hex with e1 _
+        obtain ⟨hl, seg, hseg, hent, _⟩ := destroyLoop_spec own beh _ _ _ _ _ hfn hc
+        refine ⟨hnt, by rw [← e1]; exact hl, seg, by rw [← e1]; exact hseg, hent⟩
+    · rw [if_neg (by simp [h1])] at hex
+      injection hex with hex; injection hex with e1 _
+      rw [← e1] at hd
+      simp only at hd
+      rw [h.alive.2] at hd; cases hd
+
+/-- **Deferred destruction.**  An emission (no walker running around it) of an owner whose emitters hold a reference,
+    that ends with the owner destroyed: the occurrence ran to completion first — its walker returned in a state `st2`
+    in which the owner lives and the invariant holds, swept, with every binding of the chain live — and only then the
+    remaining bindings that asked were notified, in reverse chain order, each once. -/
+theorem emitter_destroys (hs : Safe own beh) (hh : own.holdsRef = true) {fuel : Nat} {wf : Bool} {ev : Int} {st st' : St} {r : Int}
+    (h : Inv st) (hni : st.isIter = false)
+    (hex : exec Cfg.repaired own beh fuel (.emitter wf ev) st = .ok (st', r)) (hd : st'.dead = true) :
+    ∃ st2 fuel', exec Cfg.repaired own beh fuel' (.runEvent wf ev) { st with refs := st.refs + 1 } = .ok (st2, r) ∧
+      Inv st2 ∧ st2.isIter = false ∧ (∀ b ∈ st2.list, b.id ≠ TOMBSTONE) ∧ st'.list = [] ∧
+      ∃ seg, st'.log = seg ++ st2.log ∧
+        enters seg = (st2.list.reverse.filter asked).map (fun b => (b.key, EV_UNBIND + EV_DESTROY)) := by
+  cases fuel with
+  | zero => simp [exec] at hex
+  | succ fuel =>
+    simp only [exec, hh, if_true] at hex
+    have h1 : Inv { st with refs := st.refs + 1 } := h.of_refs _ (by omega)
+    have hro1 : RefOk own { st with refs := st.refs + 1 } := by
+      intro _ hit
+      have : st.isIter = true := hit
+      rw [hni] at this; cases this
+    have hok1 : TaskOk own beh (.runEvent wf ev) { st with refs := st.refs + 1 } := by
+      intro _
+      have := h.alive.1
+      show (if st.userRef = true then 2 else 1) ≤ st.refs + 1
+      split <;> omega
+    have hw := exec_good own beh hs fuel (.runEvent wf ev) _ h1 hro1 hok1
+    cases hres : exec Cfg.repaired own beh fuel (.runEvent wf ev) { st with refs := st.refs + 1 } with
+    | outOfFuel => rw [hres] at hex; simp at hex
+    | ub w => rw [hres] at hex; simp at hex
+    | ok p =>
+      obtain ⟨st2, r2⟩ := p
+      rw [hres] at hex hw
+      obtain ⟨h2, _, s2⟩ := hw.alive (Or.inr rfl)
+      simp only at hex
+      cases hres2 : exec Cfg.repaired own beh fuel .unref st2 with
+      | outOfFuel => rw [hres2] at hex; simp at hex
+      | ub w => rw [hres2] at hex; simp at hex
+      | ok p2 =>
+        obtain ⟨st3, r3⟩ := p2
+        rw [hres2] at hex
+        simp only at hex
+        injection hex with hex; injection hex with e1 e2
+        subst e1; subst e2
+        have hni2 : st2.isIter = false := s2.iter.trans hni
+        obtain ⟨hnt, hl, seg, hseg, hent⟩ := unref_destroys own beh h2 hni2 hres2 hd
+        exact ⟨st2, fuel, hres, h2, hni2, hnt, hl, seg, hseg, hent⟩
 
 end
 
@@ -1510,193 +1991,69 @@ theorem Top.no_tombstones {st : St} (h : Top st) : ∀ b ∈ st.list, b.id ≠ T
   have := (h.1.tombIter b hb ht).1
   rw [h.2] at this; cases this
 
+theorem Top.refOk {st : St} (h : Top st) (own : Owner) : RefOk own st := by
+  intro _ hit; rw [h.2] at hit; cases hit
+
 /-- identifiers handed to `unbind` are identifiers, not the tombstone mark -/
 def OpOk : Op → Prop
   | .unbindId id => id ≠ TOMBSTONE
   | _ => True
 
+/-- After an operation: the owner lives and the invariant holds, or a handler dropped the last reference and the
+    owner has been destroyed (the trace stays well formed). -/
 def PostOp (st : St) : Res St → Prop
-  | .ok st' => Top st' ∧ Step (none, none) st st'
+  | .ok st' => (st'.dead = false ∧ Top st' ∧ Step (none, none) st st') ∨ (st'.dead = true ∧ DeadStep st st')
   | .ub _ => False
   | .outOfFuel => True
 
 section
 variable (own : Owner) (beh : Behaviour)
 
-theorem postOp_of_post {st : St} (hi : st.isIter = false) {r : Res (St × Int)} (h : Post (none, none) st r) :
-    PostOp st r.dropRet := by
+theorem postOp_of_post {task : Task} (hocc : occOf task = (none, none)) {st : St} (hi : st.isIter = false) {r : Res (St × Int)}
+    (h : Post own task st r) : PostOp st r.dropRet := by
   cases r with
-  | ok p => obtain ⟨st', x⟩ := p; exact ⟨⟨h.1, h.2.iter.trans hi⟩, h.2⟩
+  | ok p =>
+    obtain ⟨st', x⟩ := p
+    rcases h with ⟨hd, h1, _, s⟩ | ⟨hd, _, _, ds⟩
+    · rw [hocc] at s
+      exact Or.inl ⟨hd, ⟨h1, s.iter.trans hi⟩, s⟩
+    · exact Or.inr ⟨hd, ds⟩
   | ub w => exact h
   | outOfFuel => trivial
 
-theorem execOp_good (hb : NoDestroy beh) (fuel : Nat) (op : Op) (hop : OpOk op) (hne : op ≠ .destroy) (st : St) (h : Top st) :
+theorem execOp_good (hs : Safe own beh) (fuel : Nat) (op : Op) (hop : OpOk op) (hne : op ≠ .destroy) (st : St) (h : Top st) :
     PostOp st (execOp Cfg.repaired own beh fuel op st) := by
-  have good := exec_good own beh hb fuel
+  have good := exec_good own beh hs fuel
+  have hro := h.refOk own
   cases op with
   | bind ev first flags hh =>
     simp only [execOp, PostOp]
-    exact ⟨⟨h.1.of_bind ev first flags hh, h.2⟩, ⟨rfl, fun hi => (by rw [h.2] at hi; cases hi), Nat.le_refl _, ⟨[_], rfl, by simp [EvOcc]⟩, ⟨[_], rfl⟩, ⟨rfl, rfl⟩⟩⟩
+    exact Or.inl ⟨(h.1.of_bind ev first flags hh).alive.2, ⟨h.1.of_bind ev first flags hh, h.2⟩,
+      ⟨rfl, fun hi => (by rw [h.2] at hi; cases hi), Nat.le_refl _, ⟨[_], rfl, by simp [EvOcc]⟩, ⟨[_], rfl⟩, Life.same rfl rfl rfl⟩⟩
   | unbind slot =>
     simp only [execOp]
-    cases hs : st.slotIds[slot]? with
-    | none => exact ⟨h, Step.refl _ st⟩
-    | some id => exact postOp_of_post h.2 (good (.unbindId id) st h.1 (slotIds_ne_tomb h.1 hs))
-  | unbindId id => exact postOp_of_post h.2 (good (.unbindId id) st h.1 hop)
+    cases hsl : st.slotIds[slot]? with
+    | none => exact Or.inl ⟨h.1.alive.2, h, Step.refl _ st⟩
+    | some id => exact postOp_of_post own rfl h.2 (good (.unbindId id) st h.1 hro (slotIds_ne_tomb h.1 hsl))
+  | unbindId id => exact postOp_of_post own rfl h.2 (good (.unbindId id) st h.1 hro hop)
   | emit ev =>
     simp only [execOp]
     by_cases hc : own.canEmit ev = true
-    · simp only [hc, if_true]; exact postOp_of_post h.2 (good (.emitter (own.wf ev) ev) st h.1 trivial)
-    · simp only [hc]; exact ⟨h, Step.refl _ st⟩
+    · simp only [hc, if_true]; exact postOp_of_post own rfl h.2 (good (.emitter (own.wf ev) ev) st h.1 hro trivial)
+    · simp only [hc]; exact Or.inl ⟨h.1.alive.2, h, Step.refl _ st⟩
   | destroy => exact absurd rfl hne
-
-/-- A handler called with `TICKIT_EV_DESTROY` does nothing: the call records entry and exit only. -/
-theorem exec_call_destroy {cfg : Cfg} {fuel : Nat} {key hh : Nat} {st st' : St} {r : Int}
-    (h : exec cfg own beh fuel (.call key (some hh) (EV_UNBIND + EV_DESTROY) 0) st = .ok (st', r)) :
-    st' = { st with inv := fun x => if x = hh then st.inv hh + 1 else st.inv x,
-                    log := Ev.leave key 0 (beh hh (st.inv hh)).ret :: Ev.enter key hh (st.inv hh) (EV_UNBIND + EV_DESTROY) 0 :: st.log } := by
-  cases fuel with
-  | zero => simp [exec] at h
-  | succ fuel =>
-    cases fuel with
-    | zero => simp [exec] at h
-    | succ fuel =>
-      simp only [exec, EV_UNBIND, EV_DESTROY] at h
-      simp only [Nat.reduceAdd, if_true] at h
-      injection h with h
-      injection h with h _
-      rw [← h]; rfl
-
-theorem exec_call_destroy_noub {cfg : Cfg} {fuel : Nat} {key hh : Nat} {st : St} {w : String} :
-    exec cfg own beh fuel (.call key (some hh) (EV_UNBIND + EV_DESTROY) 0) st ≠ .ub w := by
-  cases fuel with
-  | zero => simp [exec]
-  | succ fuel =>
-    cases fuel with
-    | zero => simp [exec]
-    | succ fuel =>
-      simp only [exec, EV_UNBIND, EV_DESTROY]
-      simp
-
-/-- does the destroy loop call this node? (`evindex == 0 || flags & (UNBIND|DESTROY)`) -/
-def asked (b : Node) : Bool := b.ev == 0 || b.flags.unbind || b.flags.destroy
-
-/-- the handler entries of a trace segment, oldest first, as (binding, event flags) -/
-def enters (seg : List Ev) : List (Nat × Nat) :=
-  seg.reverse.filterMap fun e => match e with
-    | .enter k _ _ fl _ => some (k, fl)
-    | _ => none
-
-theorem enters_cons_append (a b : List Ev) : enters (a ++ b) = enters b ++ enters a := by
-  simp [enters, List.filterMap_append]
-
-theorem destroyLoop_spec {cfg : Cfg} : ∀ (rev : List Node) (fuel : Nat) (st st' : St) (r : Int),
-    (∀ b ∈ rev, b.fn ≠ none) →
-    exec cfg own beh fuel (.destroyLoop rev) st = .ok (st', r) →
-    st'.list = [] ∧ ∃ seg, st'.log = seg ++ st.log ∧
-      enters seg = (rev.filter asked).map (fun b => (b.key, EV_UNBIND + EV_DESTROY)) ∧
-      (∀ e ∈ seg, (∃ k hh n, e = Ev.enter k hh n (EV_UNBIND + EV_DESTROY) 0) ∨ ∃ k x, e = Ev.leave k 0 x) := by
-  intro rev
-  induction rev with
-  | nil =>
-    intro fuel st st' r _ h
-    cases fuel with
-    | zero => simp [exec] at h
-    | succ fuel =>
-      simp only [exec] at h
-      injection h with h; injection h with h _
-      subst h
-      exact ⟨rfl, [], rfl, rfl, by simp⟩
-  | cons b rest ih =>
-    intro fuel st st' r hfn h
-    cases fuel with
-    | zero => simp [exec] at h
-    | succ fuel =>
-      simp only [exec] at h
-      have hrest : ∀ x ∈ rest, x.fn ≠ none := fun x hx => hfn x (List.mem_cons_of_mem _ hx)
-      by_cases hask : b.ev = 0 ∨ b.flags.unbind = true ∨ b.flags.destroy = true
-      · have haskb : asked b = true := by simp only [asked, Bool.or_eq_true, beq_iff_eq]; rcases hask with h | h | h <;> simp [h]
-        rw [if_pos hask] at h
-        cases hfb : b.fn with
-        | none => exact absurd hfb (hfn b (List.mem_cons_self ..))
-        | some hh =>
-          rw [hfb] at h
-          cases hc : exec cfg own beh fuel (.call b.key (some hh) (EV_UNBIND + EV_DESTROY) 0) st with
-          | outOfFuel => rw [hc] at h; simp at h
-          | ub w => rw [hc] at h; simp at h
-          | ok p =>
-            obtain ⟨st1, r1⟩ := p
-            rw [hc] at h
-            simp only at h
-            have hst1 := exec_call_destroy own beh hc
-            obtain ⟨hl, seg, hseg, hent, hshape⟩ := ih fuel st1 st' r hrest h
-            refine ⟨hl, seg ++ [Ev.leave b.key 0 (beh hh (st.inv hh)).ret, Ev.enter b.key hh (st.inv hh) (EV_UNBIND + EV_DESTROY) 0], ?_, ?_, ?_⟩
-            · rw [hseg, hst1]; simp
-            · rw [enters_cons_append, hent, List.filter_cons_of_pos haskb]
-              simp [enters]
-            · intro e he
-              rcases List.mem_append.1 he with he | he
-              · exact hshape e he
-              · simp only [List.mem_cons, List.not_mem_nil, or_false] at he
-                rcases he with rfl | rfl
-                · exact Or.inr ⟨_, _, rfl⟩
-                · exact Or.inl ⟨_, _, _, rfl⟩
-      · have haskb : asked b = false := by
-          simp only [not_or] at hask
-          simp only [asked, Bool.or_eq_false_iff, beq_eq_false_iff_ne, ne_eq]
-          exact ⟨⟨hask.1, by simpa using hask.2.1⟩, by simpa using hask.2.2⟩
-        rw [if_neg hask] at h
-        obtain ⟨hl, seg, hseg, hent, hshape⟩ := ih fuel st st' r hrest h
-        refine ⟨hl, seg, hseg, ?_, hshape⟩
-        rw [hent, List.filter_cons_of_neg (by simp [haskb])]
-
-theorem destroyLoop_noub {cfg : Cfg} : ∀ (rev : List Node) (fuel : Nat) (st : St) (w : String),
-    (∀ b ∈ rev, b.fn ≠ none) → exec cfg own beh fuel (.destroyLoop rev) st ≠ .ub w := by
-  intro rev
-  induction rev with
-  | nil =>
-    intro fuel st w _
-    cases fuel <;> simp [exec]
-  | cons b rest ih =>
-    intro fuel st w hfn
-    cases fuel with
-    | zero => simp [exec]
-    | succ fuel =>
-      simp only [exec]
-      have hrest : ∀ x ∈ rest, x.fn ≠ none := fun x hx => hfn x (List.mem_cons_of_mem _ hx)
-      split
-      · cases hfb : b.fn with
-        | none => exact absurd hfb (hfn b (List.mem_cons_self ..))
-        | some hh =>
-          cases hc : exec cfg own beh fuel (.call b.key (some hh) (EV_UNBIND + EV_DESTROY) 0) st with
-          | outOfFuel => simp
-          | ub w' => exact absurd hc (exec_call_destroy_noub own beh)
-          | ok p => obtain ⟨st1, r1⟩ := p; simp only; exact ih fuel st1 w hrest
-      · exact ih fuel st w hrest
-
-/-- Recording handler entries for destruction and exits keeps the trace well formed. -/
-theorem TraceOk.append_destroy {seg log : List Ev} (h : TraceOk log)
-    (hshape : ∀ e ∈ seg, (∃ k hh n, e = Ev.enter k hh n (EV_UNBIND + EV_DESTROY) 0) ∨ ∃ k x, e = Ev.leave k 0 x) :
-    TraceOk (seg ++ log) := by
-  induction seg with
-  | nil => exact h
-  | cons e seg ih =>
-    refine ⟨?_, ih (fun x hx => hshape x (List.mem_cons_of_mem _ hx))⟩
-    rcases hshape e (List.mem_cons_self ..) with ⟨k, hh, n, rfl⟩ | ⟨k, x, rfl⟩
-    · exact ⟨fun ho => by simp [EV_UNBIND, EV_DESTROY] at ho, fun ho => by simp [EV_UNBIND, EV_DESTROY] at ho⟩
-    · trivial
 
 /-- What a whole history guarantees. -/
 def PostOps (st : St) (ops : List Op) : Res St → Prop
-  | .ok st' => TraceOk st'.log ∧ (Op.destroy ∉ ops → Top st' ∧ st.nextOcc ≤ st'.nextOcc)
+  | .ok st' => TraceOk st'.log ∧ (Op.destroy ∉ ops → st'.dead = false → Top st' ∧ st.nextOcc ≤ st'.nextOcc)
   | .ub _ => False
   | .outOfFuel => True
 
-theorem execOps_good (hb : NoDestroy beh) (fuel : Nat) : ∀ (ops : List Op) (st : St), (∀ op ∈ ops, OpOk op) → Top st →
+theorem execOps_good (hs : Safe own beh) (fuel : Nat) : ∀ (ops : List Op) (st : St), (∀ op ∈ ops, OpOk op) → Top st →
     PostOps st ops (execOps Cfg.repaired own beh fuel ops st) := by
   intro ops
   induction ops with
-  | nil => intro st _ h; exact ⟨h.1.trace, fun _ => ⟨h, Nat.le_refl _⟩⟩
+  | nil => intro st _ h; exact ⟨h.1.trace, fun _ _ => ⟨h, Nat.le_refl _⟩⟩
   | cons op rest ih =>
     intro st hops h
     simp only [execOps]
@@ -1710,25 +2067,31 @@ theorem execOps_good (hb : NoDestroy beh) (fuel : Nat) : ∀ (ops : List Op) (st
       | ub w => exact absurd hc (destroyLoop_noub own beh _ _ _ _ hfn)
       | ok p =>
         obtain ⟨st', r⟩ := p
-        simp only [Res.dropRet, if_true]
+        simp only [Res.dropRet, decide_true, Bool.true_or, if_true]
         obtain ⟨_, seg, hseg, _, hshape⟩ := destroyLoop_spec own beh _ _ _ _ _ hfn hc
         refine ⟨by rw [hseg]; exact h.1.trace.append_destroy hshape, fun hn => absurd (List.mem_cons_self ..) hn⟩
-    · have := execOp_good own beh hb fuel op (hops op (List.mem_cons_self ..)) hd st h
+    · have hpo := execOp_good own beh hs fuel op (hops op (List.mem_cons_self ..)) hd st h
       cases hc : execOp Cfg.repaired own beh fuel op st with
       | outOfFuel => trivial
-      | ub w => rw [hc] at this; exact this.elim
+      | ub w => rw [hc] at hpo; exact hpo.elim
       | ok st' =>
-        rw [hc] at this
-        simp only [hd, if_false]
-        have hr := ih st' (fun o ho => hops o (List.mem_cons_of_mem _ ho)) this.1
-        cases hc2 : execOps Cfg.repaired own beh fuel rest st' with
-        | outOfFuel => trivial
-        | ub w => rw [hc2] at hr; exact hr.elim
-        | ok st'' =>
-          rw [hc2] at hr
-          refine ⟨hr.1, fun hn => ?_⟩
-          have := hr.2 (fun hm => hn (List.mem_cons_of_mem _ hm))
-          exact ⟨this.1, Nat.le_trans ‹PostOp st (Res.ok st')›.2.occMono this.2⟩
+        rw [hc] at hpo
+        simp only [hd, decide_false, Bool.false_or]
+        rcases hpo with ⟨hd', htop, s⟩ | ⟨hd', htr, _⟩
+        · rw [hd']
+          simp only [Bool.false_eq_true, if_false]
+          have hr := ih st' (fun o ho => hops o (List.mem_cons_of_mem _ ho)) htop
+          cases hc2 : execOps Cfg.repaired own beh fuel rest st' with
+          | outOfFuel => trivial
+          | ub w => rw [hc2] at hr; exact hr.elim
+          | ok st'' =>
+            rw [hc2] at hr
+            refine ⟨hr.1, fun hn hal => ?_⟩
+            have := hr.2 (fun hm => hn (List.mem_cons_of_mem _ hm)) hal
+            exact ⟨this.1, Nat.le_trans s.occMono this.2⟩
+        · rw [hd']
+          simp only [if_true]
+          exact ⟨htr, fun _ hal => by rw [hd'] at hal; cases hal⟩
 
 end
 
@@ -1940,48 +2303,6 @@ theorem split_append_cases {α : Type} {A B : List α} {x : α} {s2 s1 : List α
       · exact Or.inl ⟨s1', by rw [h.1, h1]; simp, h2⟩
       · exact Or.inr ⟨s2'', by rw [h.1, h1]; simp, h2⟩
 
-section
-variable (own : Owner) (beh : Behaviour)
-
-/-- The trace of a completed call: entry, what the handler's actions did (all of it belonging to later occurrences
-    or to notifications), return. -/
-theorem exec_call_shape (hb : NoDestroy beh) {fuel key hh fl occ : Nat} {st st' : St} {r : Int} (h : Inv st)
-    (hok : TaskOk (.call key (some hh) fl occ) st)
-    (hex : exec Cfg.repaired own beh fuel (.call key (some hh) fl occ) st = .ok (st', r)) :
-    ∃ segA, st'.log = Ev.leave key occ r :: (segA ++ Ev.enter key hh (st.inv hh) fl occ :: st.log) ∧
-      ∀ e ∈ segA, EvOcc (none, none) st.nextOcc e := by
-  cases fuel with
-  | zero => simp [exec] at hex
-  | succ fuel =>
-    obtain ⟨_, hkey, hev⟩ := hok
-    simp only [exec] at hex
-    have h1 : Inv { st with inv := fun x => if x = hh then st.inv hh + 1 else st.inv x,
-                            log := Ev.enter key hh (st.inv hh) fl occ :: st.log } :=
-      h.of_push ⟨rfl, rfl⟩ rfl rfl rfl rfl (by intro k hk; simp only [Ev.key?, Option.some.injEq] at hk; omega) (hev _ _)
-        (fun b hb' ht => h.tombIter b hb' ht)
-    have hacts : TaskOk (.acts key 0 (if fl / EV_DESTROY % 2 = 1 then [] else (beh hh (st.inv hh)).acts))
-        { st with inv := fun x => if x = hh then st.inv hh + 1 else st.inv x,
-                  log := Ev.enter key hh (st.inv hh) fl occ :: st.log } := by
-      intro a ha
-      split at ha
-      · cases ha
-      · intro e; subst e; exact hb _ _ ha
-    have hw := exec_good own beh hb fuel _ _ h1 hacts
-    cases hres : exec Cfg.repaired own beh fuel (.acts key 0 (if fl / EV_DESTROY % 2 = 1 then [] else (beh hh (st.inv hh)).acts))
-        { st with inv := fun x => if x = hh then st.inv hh + 1 else st.inv x,
-                  log := Ev.enter key hh (st.inv hh) fl occ :: st.log } with
-    | outOfFuel => rw [hres] at hex; simp at hex
-    | ub w => rw [hres] at hex; simp at hex
-    | ok p =>
-      obtain ⟨st2, r2⟩ := p
-      rw [hres] at hex hw
-      simp only at hex
-      injection hex with hex; injection hex with e1 e2
-      obtain ⟨seg, hseg, hf⟩ := hw.2.logExt
-      exact ⟨seg, by rw [← e1, ← e2]; simp [St.push, hseg], hf⟩
-
-end
-
 /-- What a completed walk from `cur` has done, in terms of the trace:
     * the deliveries of this occurrence went, in chain order and at most once each, to bindings of the chain from
       `cur` on (as the chain is at the end: bindings appended meanwhile included);
@@ -2003,18 +2324,19 @@ def WalkPost (wf : Bool) (ev : Int) (o : Nat) (cur : Option Nat) (st st' : St) (
 section
 variable (own : Owner) (beh : Behaviour)
 
-theorem walk_spec (hb : NoDestroy beh) : ∀ (fuel : Nat) (wf : Bool) (ev : Int) (o : Nat) (cur : Option Nat) (st st' : St) (r : Int),
-    Inv st → TaskOk (.walk wf ev o cur) st → 0 < o → exec Cfg.repaired own beh fuel (.walk wf ev o cur) st = .ok (st', r) →
+theorem walk_spec (hs : Safe own beh) : ∀ (fuel : Nat) (wf : Bool) (ev : Int) (o : Nat) (cur : Option Nat) (st st' : St) (r : Int),
+    Inv st → RefOk own st → TaskOk own beh (.walk wf ev o cur) st → 0 < o →
+    exec Cfg.repaired own beh fuel (.walk wf ev o cur) st = .ok (st', r) →
     WalkPost wf ev o cur st st' r := by
   intro fuel
   induction fuel with
-  | zero => intro wf ev o cur st st' r _ _ _ hex; simp [exec] at hex
+  | zero => intro wf ev o cur st st' r _ _ _ _ hex; simp [exec] at hex
   | succ fuel ih =>
-    intro wf ev o cur st st' r h hok hopos hex
-    have hgood := exec_good own beh hb fuel
-    have hwhole := exec_good own beh hb (fuel + 1) (.walk wf ev o cur) st h hok
+    intro wf ev o cur st st' r h hro hok hopos hex
+    have hgood := exec_good own beh hs fuel
+    have hwhole := exec_good own beh hs (fuel + 1) (.walk wf ev o cur) st h hro hok
     rw [hex] at hwhole
-    obtain ⟨hinv', hstep'⟩ := hwhole
+    obtain ⟨hinv', _, hstep'⟩ := hwhole.alive (Or.inr rfl)
     obtain ⟨hit, hcur, hocc⟩ := hok
     cases cur with
     | none =>
@@ -2055,13 +2377,16 @@ theorem walk_spec (hb : NoDestroy beh) : ∀ (fuel : Nat) (wf : Bool) (ev : Int)
           split
           · exact keys_modifyKey _ _ _ (fun _ => rfl)
           · rfl
-        have hcall : TaskOk (.call b.key b.fn (if b.flags.oneshot = true then EV_FIRE + EV_UNBIND else EV_FIRE) o)
+        have hro1 : RefOk own { st with
+            list := if b.flags.oneshot = true then modifyKey st.list b.key (fun b => { b with id := TOMBSTONE }) else st.list,
+            needsDelete := b.flags.oneshot || st.needsDelete, log := Ev.fire b.key o :: st.log } := hro.of_eq rfl rfl rfl
+        have hcall : TaskOk own beh (.call b.key b.fn (if b.flags.oneshot = true then EV_FIRE + EV_UNBIND else EV_FIRE) o)
             { st with
               list := if b.flags.oneshot = true then modifyKey st.list b.key (fun b => { b with id := TOMBSTONE }) else st.list,
               needsDelete := b.flags.oneshot || st.needsDelete, log := Ev.fire b.key o :: st.log } := by
           refine ⟨h.liveFn b hbm hlive, h.keysLt b hbm, fun hh n => ⟨fun _ => ⟨_, rfl⟩, fun he => ?_⟩⟩
           split at he <;> simp [EV_FIRE, EV_UNBIND] at he
-        have hw := hgood _ _ h1 hcall
+        have hw := hgood _ _ h1 hro1 hcall
         cases hres : exec Cfg.repaired own beh fuel
             (.call b.key b.fn (if b.flags.oneshot = true then EV_FIRE + EV_UNBIND else EV_FIRE) o)
             { st with
@@ -2072,7 +2397,7 @@ theorem walk_spec (hb : NoDestroy beh) : ∀ (fuel : Nat) (wf : Bool) (ev : Int)
         | ok p =>
           obtain ⟨st2, r2⟩ := p
           rw [hres] at hex hw
-          obtain ⟨h2, s2⟩ := hw
+          obtain ⟨h2, hro2, s2⟩ := hw.alive (Or.inl hit)
           simp only at hex
           obtain ⟨segc, hsegc, hfc⟩ := s2.logExt
           simp only at hsegc hfc
@@ -2095,7 +2420,8 @@ theorem walk_spec (hb : NoDestroy beh) : ∀ (fuel : Nat) (wf : Bool) (ev : Int)
           rw [hfn] at hres'
           have hcall' := hcall
           rw [hfn] at hcall'
-          obtain ⟨segA, hshape, hfA⟩ := exec_call_shape own beh hb h1 hcall' hres'
+          obtain ⟨segA, hshape, hfA⟩ := exec_call_shape own beh hs h1 hro1 hcall' hres'
+          have hfA := hfA h2.alive.2
           simp only at hshape hfA
           have hsegc_shape : segc = Ev.leave b.key o r2 ::
               (segA ++ [Ev.enter b.key hh (st.inv hh) (if b.flags.oneshot = true then EV_FIRE + EV_UNBIND else EV_FIRE) o]) :=
@@ -2163,12 +2489,12 @@ theorem walk_spec (hb : NoDestroy beh) : ∀ (fuel : Nat) (wf : Bool) (ev : Int)
               rw [hn] at hex
               simp only at hex
               have hocc2 : o < st2.nextOcc := Nat.lt_of_lt_of_le hocc s2.occMono
-              have hok2 : TaskOk (.walk wf ev o nx) st2 := ⟨hiter2, fun k' hk' => nextOf_some_mem (hk' ▸ hn), hocc2⟩
-              obtain ⟨segr, hsegr, hsub, hsound, hcomp, hcl5, hcl6⟩ := ih wf ev o nx st2 st' r h2 hok2 hopos hex
+              have hok2 : TaskOk own beh (.walk wf ev o nx) st2 := ⟨hiter2, fun k' hk' => nextOf_some_mem (hk' ▸ hn), hocc2⟩
+              obtain ⟨segr, hsegr, hsub, hsound, hcomp, hcl5, hcl6⟩ := ih wf ev o nx st2 st' r h2 hro2 hok2 hopos hex
               -- the chain from `b.key`, at the end, is `b.key` followed by the chain from `nx`
-              have hstep2 := hgood (.walk wf ev o nx) st2 h2 hok2
+              have hstep2 := hgood (.walk wf ev o nx) st2 h2 hro2 hok2
               rw [hex] at hstep2
-              obtain ⟨P2, A2, hinfix2⟩ := hstep2.2.keysIter hiter2
+              obtain ⟨P2, A2, hinfix2⟩ := (hstep2.alive (Or.inr rfl)).2.2.keysIter hiter2
               have hnx : nx = (afterK b.key (keys st2.list)).head? := by
                 have := nextOf_eq hk2; rw [hn] at this; injection this
               have hchain : afterK b.key (keys st'.list) = chainFrom nx (keys st'.list) := by
@@ -2260,8 +2586,8 @@ theorem walk_spec (hb : NoDestroy beh) : ∀ (fuel : Nat) (wf : Bool) (ev : Int)
         | some nx =>
           rw [hn] at hex
           simp only at hex
-          have hok2 : TaskOk (.walk wf ev o nx) st := ⟨hit, fun k' hk' => nextOf_some_mem (hk' ▸ hn), hocc⟩
-          obtain ⟨segr, hsegr, hsub, hsound, hcomp, hcl5, hcl6⟩ := ih wf ev o nx st st' r h hok2 hopos hex
+          have hok2 : TaskOk own beh (.walk wf ev o nx) st := ⟨hit, fun k' hk' => nextOf_some_mem (hk' ▸ hn), hocc⟩
+          obtain ⟨segr, hsegr, hsub, hsound, hcomp, hcl5, hcl6⟩ := ih wf ev o nx st st' r h hro hok2 hopos hex
           have hnx : nx = (afterK b.key (keys st.list)).head? := by
             have := nextOf_eq hk; rw [hn] at this; injection this
           have hchain : afterK b.key (keys st'.list) = chainFrom nx (keys st'.list) := by
@@ -2311,8 +2637,8 @@ variable (own : Owner) (beh : Behaviour)
 
 /-- **One occurrence** (`tickit_bindings_run_event` / `…_whilefalse` called in any state satisfying the invariant,
     i.e. at any nesting depth).  `A` are the bindings appended to the chain while it was being delivered. -/
-theorem runEvent_spec (hb : NoDestroy beh) {fuel : Nat} {wf : Bool} {ev : Int} {st st' : St} {r : Int} (h : Inv st)
-    (hocc1 : 1 ≤ st.nextOcc)
+theorem runEvent_spec (hs : Safe own beh) {fuel : Nat} {wf : Bool} {ev : Int} {st st' : St} {r : Int} (h : Inv st)
+    (hro : RefOk own st) (hokr : TaskOk own beh (.runEvent wf ev) st) (hocc1 : 1 ≤ st.nextOcc)
     (hex : exec Cfg.repaired own beh fuel (.runEvent wf ev) st = .ok (st', r)) :
     ∃ seg A, st'.log = Ev.occEnd st.nextOcc :: (seg ++ Ev.occBegin st.nextOcc ev wf :: st.log) ∧
       (keys st.list ++ A).Nodup ∧
@@ -2330,7 +2656,9 @@ theorem runEvent_spec (hb : NoDestroy beh) {fuel : Nat} {wf : Bool} {ev : Int} {
     simp only [exec] at hex
     have h1 : Inv { st with isIter := true, nextOcc := st.nextOcc + 1, log := Ev.occBegin st.nextOcc ev wf :: st.log } :=
       h.of_push ⟨rfl, rfl⟩ rfl rfl rfl rfl (by simp [Ev.key?]) (by simp [EvOk]) (fun b hb' ht => ⟨rfl, (h.tombIter b hb' ht).2⟩)
-    have hok : TaskOk (.walk wf ev st.nextOcc (firstOf st.list))
+    have hro1 : RefOk own { st with isIter := true, nextOcc := st.nextOcc + 1, log := Ev.occBegin st.nextOcc ev wf :: st.log } :=
+      fun ho _ => hokr ho
+    have hok : TaskOk own beh (.walk wf ev st.nextOcc (firstOf st.list))
         { st with isIter := true, nextOcc := st.nextOcc + 1, log := Ev.occBegin st.nextOcc ev wf :: st.log } :=
       ⟨rfl, fun k hk => firstOf_mem hk, Nat.lt_succ_self _⟩
     cases hres : exec Cfg.repaired own beh fuel (.walk wf ev st.nextOcc (firstOf st.list))
@@ -2341,13 +2669,13 @@ theorem runEvent_spec (hb : NoDestroy beh) {fuel : Nat} {wf : Bool} {ev : Int} {
       obtain ⟨st2, r2⟩ := p
       rw [hres] at hex
       simp only at hex
-      have hgood := exec_good own beh hb fuel _ _ h1 hok
+      have hgood := exec_good own beh hs fuel _ _ h1 hro1 hok
       rw [hres] at hgood
-      obtain ⟨h2, s2⟩ := hgood
+      obtain ⟨h2, _, s2⟩ := hgood.alive (Or.inr rfl)
       obtain ⟨P, A, hinfix⟩ := s2.keysIter rfl
       simp only at hinfix
       obtain ⟨seg, hseg, hsub, hsound, hcomp, hcl5, hcl6⟩ :=
-        walk_spec own beh hb fuel wf ev st.nextOcc (firstOf st.list) _ st2 r2 h1 hok (by omega) hres
+        walk_spec own beh hs fuel wf ev st.nextOcc (firstOf st.list) _ st2 r2 h1 hro1 hok (by omega) hres
       simp only at hseg hsound hcomp
       -- the chain the walker went through is the chain at the start plus what was appended
       have hchain : chainFrom (firstOf st.list) (keys st2.list) = keys st.list ++ A := by
@@ -2435,6 +2763,10 @@ def chainOf : Res St → List Nat
   | .ok st => keys st.list
   | _ => []
 
+def deadOf : Res St → Bool
+  | .ok st => st.dead
+  | _ => false
+
 def isOk : Res St → Bool
   | .ok _ => true
   | _ => false
@@ -2446,9 +2778,9 @@ def isUb : Res St → Bool
 theorem runs_of_isOk {cfg : Cfg} {own : Owner} {beh : Behaviour} {fuel : Nat} {ops : List Op}
     (h : isOk (execOps cfg own beh fuel ops St.init) = true) :
     ∃ st, execOps cfg own beh fuel ops St.init = .ok st ∧ st.log = logOf (execOps cfg own beh fuel ops St.init) ∧
-      keys st.list = chainOf (execOps cfg own beh fuel ops St.init) := by
+      keys st.list = chainOf (execOps cfg own beh fuel ops St.init) ∧ st.dead = deadOf (execOps cfg own beh fuel ops St.init) := by
   cases hc : execOps cfg own beh fuel ops St.init with
-  | ok st => exact ⟨st, rfl, rfl, rfl⟩
+  | ok st => exact ⟨st, rfl, rfl, rfl, rfl⟩
   | ub w => rw [hc] at h; cases h
   | outOfFuel => rw [hc] at h; cases h
 
@@ -2463,6 +2795,11 @@ def behSelfTwice : Behaviour := fun h n => if h = 0 ∧ n ≤ 1 then ⟨[.unbind
 /-- handler 0 binds handler 1 `FIRST` at its first invocation -/
 def behBindFirst : Behaviour := fun h n => if h = 0 ∧ n = 0 then ⟨[.bind 1 true plain 1], 0⟩ else ⟨[], 0⟩
 def behNone : Behaviour := fun _ _ => ⟨[], 0⟩
+
+/-- handler 0 drops the handlers' reference to the owner at its first invocation, then emits again -/
+def behDropRef : Behaviour := fun h n => if h = 0 ∧ n = 0 then ⟨[.destroy, .emit 1], 0⟩ else ⟨[], 0⟩
+/-- a pen as it is since fix 4d40c98: its emitters hold a reference while they run the handlers -/
+def penHoldingRef : Owner := { Owner.pen with holdsRef := true }
 
 theorem noDestroy_behReemit : NoDestroy behReemit := by intro h n; unfold behReemit; split <;> simp
 theorem noDestroy_behSelfTwice : NoDestroy behSelfTwice := by intro h n; unfold behSelfTwice; split <;> simp
